@@ -2,11 +2,22 @@
 
 Decides: the documented build front end accepts the five kernels of the working tree
 (compile-fail witness: pyccel translation on a scratch copy); every library call site of a
-kernel fits its signature; the numba/pythran source copies define what their consumers import
-with the same parameters, agree in export arity, the duplicated copies are identical, and
-every variant body is either AST-identical to the reference (after stripping decorators,
-annotations, docstrings) or proved equal to the same specification formula as the reference
-(engine F); no kernel relies on negative-index wrap-around, which compiled code does not do.
+kernel fits its signature; the numba/pythran source copies define what their consumers import,
+bind the calls written for the reference the same way (V1), declare export signatures of the
+function's arity and of the reference's argument types (V2), the duplicated copies agree (V3),
+no copy writes an array the reference declares Final (V5), and every variant body (V4) is
+ - AST-identical to the reference (decorators, annotations, docstrings, imports stripped), or
+ - identical in canonical form (single-assignment temporaries / hoisted invariants / module
+   constants written back, result variable vs early return, `if` arms with one body,
+   enumerate vs range loops, shape unpacking, `+=`, literal negative indices, operand order), or
+ - proved equal to the same specification formula as the reference (engine F), or
+ - statement for statement the same with every differing expression equal as a rational
+   function of its operands;
+a body with the same statements and a recognisably different expression is VIOLATED (the
+diagnosis names the two expressions), anything else is UNDECIDED - never silently accepted.
+K1: no index that interpreted Python would wrap around and compiled code would not (X - Y % n,
+one-sided or single-step range correction of a difference, unreduced difference of array data,
+index counted from the end by a variable); K2: no loop counter read after its loop.
 Numerical equality of compiled and interpreted results is inherently dynamic: not decided.
 """
 from __future__ import annotations
@@ -39,6 +50,902 @@ def norm_fn(fn: ast.FunctionDef) -> str:
     return ast.dump(f)
 
 
+# ---------------------------------------------------------------------------------------------------------
+# canonical form of a kernel body (engine-free, semantics-preserving source-to-source steps applied to BOTH
+# sides of a comparison): undoes hoisted invariants / common-subexpression temporaries, result variables,
+# shape unpacking, merged or split `if` arms with the same body, augmented assignments, operand order.
+# ---------------------------------------------------------------------------------------------------------
+
+_MATH_PURE = {"exp", "sqrt", "abs", "int", "float", "real", "floor", "ceil", "tanh", "cos", "sin", "tan", "min", "max", "len",
+              "log", "arctan2", "arccos", "arcsin", "mod", "fabs"}
+
+
+# calls that do not write into their arguments (but are not values to be duplicated: allocation, iteration)
+_NO_WRITE = {"range", "enumerate", "zip", "empty", "zeros", "ones", "empty_like", "zeros_like", "ones_like", "print"}
+
+
+def pure_functions(chk):
+    """kernel functions that only compute a value: no store into a parameter, no procedure-style call statement"""
+    flags: dict[str, list] = {}
+    for k in list(U.KERNELS) + [v for vs in U.VARIANTS.values() for v in vs]:
+        for q, fn in chk.mod(k).functions().items():
+            if "." in q:
+                continue
+            params = {a.arg for a in fn.args.args}
+            writes = False
+            for n in ast.walk(fn):
+                if isinstance(n, (ast.Subscript, ast.Attribute)) and isinstance(n.ctx, ast.Store):
+                    b = n
+                    while isinstance(b, (ast.Subscript, ast.Attribute)):
+                        b = b.value
+                    if isinstance(b, ast.Name) and b.id in params:
+                        writes = True
+                elif isinstance(n, ast.Expr) and isinstance(n.value, ast.Call):
+                    writes = True
+                elif isinstance(n, (ast.Global, ast.Nonlocal)):
+                    writes = True
+            has_value = any(isinstance(n, ast.Return) and n.value is not None for n in ast.walk(fn))
+            flags.setdefault(q, []).append(has_value and not writes)
+    # a name counts as pure only when every definition of it (reference and copies) is
+    return set(_MATH_PURE) | {q for q, fl in flags.items() if all(fl)}
+
+
+def _strip(fn: ast.FunctionDef) -> ast.FunctionDef:
+    f = ast.parse(ast.unparse(fn)).body[0]
+    f.decorator_list = []
+    f.returns = None
+    for a in f.args.args + f.args.kwonlyargs:
+        a.annotation = None
+
+    class T(ast.NodeTransformer):
+        def visit_AnnAssign(self, n):
+            self.generic_visit(n)
+            if n.value is None:
+                return None
+            return ast.Assign(targets=[n.target], value=n.value)
+
+        def visit_AugAssign(self, n):
+            self.generic_visit(n)
+            tl = ast.parse(ast.unparse(n.target), mode="eval").body
+            return ast.Assign(targets=[n.target], value=ast.BinOp(left=tl, op=n.op, right=n.value))
+
+        def visit_Call(self, n):
+            self.generic_visit(n)
+            # len(X) of an array is its first extent; range(0, n) is range(n)
+            if isinstance(n.func, ast.Name) and n.func.id == "len" and len(n.args) == 1 and isinstance(n.args[0], ast.Name) and not n.keywords:
+                return ast.Subscript(value=ast.Attribute(value=n.args[0], attr="shape", ctx=ast.Load()), slice=ast.Constant(0), ctx=ast.Load())
+            if isinstance(n.func, ast.Name) and n.func.id == "range" and len(n.args) == 2 and isinstance(n.args[0], ast.Constant) \
+                    and n.args[0].value == 0:
+                n.args = [n.args[1]]
+            return n
+
+        def visit_Subscript(self, n):
+            self.generic_visit(n)
+            # a literal negative index counts from the end (both Python and pyccel): X[-c] is X[X.shape[k] - c]
+            if isinstance(n.value, ast.Name):
+                items = n.slice.elts if isinstance(n.slice, ast.Tuple) else [n.slice]
+                new = []
+                for k, it in enumerate(items):
+                    c = None
+                    if isinstance(it, ast.UnaryOp) and isinstance(it.op, ast.USub) and isinstance(it.operand, ast.Constant) \
+                            and isinstance(it.operand.value, int) and it.operand.value > 0:
+                        c = it.operand.value
+                    elif isinstance(it, ast.Constant) and isinstance(it.value, int) and not isinstance(it.value, bool) and it.value < 0:
+                        c = -it.value
+                    if c is not None:
+                        it = ast.BinOp(left=ast.Subscript(value=ast.Attribute(value=ast.Name(id=n.value.id, ctx=ast.Load()), attr="shape",
+                                                                               ctx=ast.Load()), slice=ast.Constant(k), ctx=ast.Load()),
+                                       op=ast.Sub(), right=ast.Constant(c))
+                    new.append(it)
+                if isinstance(n.slice, ast.Tuple):
+                    n.slice.elts = new
+                else:
+                    n.slice = new[0]
+            return n
+
+        def visit_Compare(self, n):
+            self.generic_visit(n)
+            if len(n.ops) == 1 and isinstance(n.ops[0], (ast.Gt, ast.GtE)):
+                return ast.Compare(left=n.comparators[0], ops=[ast.Lt() if isinstance(n.ops[0], ast.Gt) else ast.LtE()], comparators=[n.left])
+            return n
+    f = T().visit(f)
+
+    def clean(body):
+        out = []
+        for st in body:
+            if isinstance(st, (ast.Import, ast.ImportFrom, ast.Pass)) or _is_docstring(st):
+                continue
+            # a, b = X.shape  ->  a = X.shape[0]; b = X.shape[1]
+            if isinstance(st, ast.Assign) and len(st.targets) == 1 and isinstance(st.targets[0], ast.Tuple) \
+                    and all(isinstance(e, ast.Name) for e in st.targets[0].elts) and isinstance(st.value, ast.Attribute) \
+                    and st.value.attr == "shape" and isinstance(st.value.value, ast.Name):
+                for k, e in enumerate(st.targets[0].elts):
+                    out.append(ast.Assign(targets=[ast.Name(id=e.id, ctx=ast.Store())],
+                                          value=ast.Subscript(value=ast.Attribute(value=ast.Name(id=st.value.value.id, ctx=ast.Load()),
+                                                                                  attr="shape", ctx=ast.Load()),
+                                                              slice=ast.Constant(k), ctx=ast.Load())))
+                continue
+            for fld in ("body", "orelse", "finalbody"):
+                b = getattr(st, fld, None)
+                if isinstance(b, list) and (not b or isinstance(b[0], ast.stmt)):
+                    setattr(st, fld, clean(b))
+            if isinstance(st, (ast.For, ast.While, ast.If)) and not st.body:
+                st.body = [ast.Pass()]
+            # for i, v in enumerate(X): ...   ->   for i in range(X.shape[0]): v = X[i]; ...
+            if isinstance(st, ast.For) and isinstance(st.iter, ast.Call) and isinstance(st.iter.func, ast.Name) and st.iter.func.id == "enumerate" \
+                    and len(st.iter.args) == 1 and not st.iter.keywords and isinstance(st.iter.args[0], ast.Name) \
+                    and isinstance(st.target, ast.Tuple) and len(st.target.elts) == 2 and all(isinstance(e, ast.Name) for e in st.target.elts) \
+                    and not st.orelse:
+                cnt, elt, arr = st.target.elts[0].id, st.target.elts[1].id, st.iter.args[0].id
+                fetch = ast.Assign(targets=[ast.Name(id=elt, ctx=ast.Store())],
+                                   value=ast.Subscript(value=ast.Name(id=arr, ctx=ast.Load()), slice=ast.Name(id=cnt, ctx=ast.Load()), ctx=ast.Load()))
+                st = ast.For(target=ast.Name(id=cnt, ctx=ast.Store()),
+                             iter=ast.Call(func=ast.Name(id="range", ctx=ast.Load()),
+                                           args=[ast.Subscript(value=ast.Attribute(value=ast.Name(id=arr, ctx=ast.Load()), attr="shape", ctx=ast.Load()),
+                                                               slice=ast.Constant(0), ctx=ast.Load())], keywords=[]),
+                             body=[fetch] + st.body, orelse=[])
+            # if not c: A else: B   ->   if c: B else: A
+            if isinstance(st, ast.If) and isinstance(st.test, ast.UnaryOp) and isinstance(st.test.op, ast.Not) and st.orelse \
+                    and not (len(st.orelse) == 1 and isinstance(st.orelse[0], ast.If)):
+                st = ast.If(test=st.test.operand, body=st.orelse, orelse=st.body)
+            out.append(st)
+        return out
+    f.body = clean(f.body) or [ast.Pass()]
+    return ast.fix_missing_locations(f)
+
+
+def _is_docstring(st):
+    return isinstance(st, ast.Expr) and isinstance(st.value, ast.Constant) and isinstance(st.value.value, str)
+
+
+def _terminates(block):
+    return bool(block) and isinstance(block[-1], (ast.Return, ast.Raise))
+
+
+def _wrap_loops(block):
+    """x = E; while x < 0: x += n; while x >= n: x -= n  (either order)  is  x = E % n  for a positive period n"""
+    def shape(w, x):
+        if not (isinstance(w, ast.While) and not w.orelse and len(w.body) == 1 and isinstance(w.body[0], ast.Assign)
+                and len(w.body[0].targets) == 1 and isinstance(w.body[0].targets[0], ast.Name) and w.body[0].targets[0].id == x
+                and isinstance(w.body[0].value, ast.BinOp) and isinstance(w.body[0].value.left, ast.Name) and w.body[0].value.left.id == x
+                and isinstance(w.test, ast.Compare) and len(w.test.ops) == 1):
+            return None
+        n, op, t = w.body[0].value.right, w.body[0].value.op, w.test
+        l, o, r = t.left, t.ops[0], t.comparators[0]
+        if isinstance(op, ast.Add) and isinstance(o, ast.Lt) and isinstance(l, ast.Name) and l.id == x and src(r) == "0":
+            return "low", src(n)
+        if isinstance(op, ast.Sub) and isinstance(o, ast.LtE) and isinstance(r, ast.Name) and r.id == x and src(l) == src(n):
+            return "high", src(n)        # x >= n was normalised to n <= x
+        return None
+    k = 0
+    while k + 2 < len(block):
+        a = block[k]
+        if isinstance(a, ast.Assign) and len(a.targets) == 1 and isinstance(a.targets[0], ast.Name):
+            x = a.targets[0].id
+            s1, s2 = shape(block[k + 1], x), shape(block[k + 2], x)
+            if s1 and s2 and {s1[0], s2[0]} == {"low", "high"} and s1[1] == s2[1] and x not in s1[1] \
+                    and x not in {n.id for n in ast.walk(a.value) if isinstance(n, ast.Name)}:
+                period = block[k + 1].body[0].value.right
+                a.value = ast.BinOp(left=a.value, op=ast.Mod(), right=period)
+                del block[k + 1:k + 3]
+        k += 1
+    for st in block:
+        for fld in ("body", "orelse"):
+            b = getattr(st, fld, None)
+            if isinstance(b, list) and b and isinstance(b[0], ast.stmt):
+                _wrap_loops(b)
+
+
+def _accumulators(f):
+    """acc = E0; <loop updating acc>; X[idx] = acc   ->   X[idx] = E0; <loop updating X[idx]>   when the loop touches neither X nor
+    the operands of idx and acc lives in these three statements only: the scalar is a name for the cell"""
+    count = {}
+    for n in ast.walk(f):
+        if isinstance(n, ast.Name):
+            count[n.id] = count.get(n.id, 0) + 1
+
+    def go(block):
+        k = 0
+        while k + 2 < len(block):
+            a, lp, st = block[k], block[k + 1], block[k + 2]
+            if isinstance(a, ast.Assign) and len(a.targets) == 1 and isinstance(a.targets[0], ast.Name) and isinstance(lp, (ast.For, ast.While)) \
+                    and isinstance(st, ast.Assign) and len(st.targets) == 1 and isinstance(st.targets[0], ast.Subscript) \
+                    and isinstance(st.targets[0].value, ast.Name) and isinstance(st.value, ast.Name) and st.value.id == a.targets[0].id:
+                acc, cell = a.targets[0].id, st.targets[0]
+                X = cell.value.id
+                idx_names = {n.id for n in ast.walk(cell.slice) if isinstance(n, ast.Name)}
+                inside = sum(1 for n in ast.walk(lp) if isinstance(n, ast.Name) and n.id == acc)
+                stored_in_loop = {n.id for n in ast.walk(lp) if isinstance(n, ast.Name) and isinstance(n.ctx, ast.Store)}
+                mentions_X = any(isinstance(n, ast.Name) and n.id == X for n in ast.walk(lp))
+                calls = [c for c in ast.walk(lp) if isinstance(c, ast.Call) and any(isinstance(n, ast.Name) and n.id == acc for n in ast.walk(c))]
+                simple_idx = all(isinstance(n, (ast.Name, ast.Constant, ast.Tuple, ast.BinOp, ast.operator, ast.expr_context, ast.UnaryOp, ast.unaryop))
+                                 for n in ast.walk(cell.slice))
+                leaves = any(isinstance(n, (ast.Return, ast.Raise)) for n in ast.walk(lp))
+                if count.get(acc, 0) == inside + 2 and inside >= 2 and not mentions_X and not leaves and not (idx_names & stored_in_loop) and not calls \
+                        and acc not in idx_names and simple_idx \
+                        and acc not in {n.id for n in ast.walk(a.value) if isinstance(n, ast.Name)}:
+                    class R(ast.NodeTransformer):
+                        def visit_Name(self, n):
+                            if n.id == acc:
+                                c = ast.parse(ast.unparse(cell), mode="eval").body
+                                c.ctx = ast.Store() if isinstance(n.ctx, ast.Store) else ast.Load()
+                                return c
+                            return n
+                    block[k] = ast.Assign(targets=[ast.parse(ast.unparse(cell), mode="eval").body], value=a.value)
+                    block[k].targets[0].ctx = ast.Store()
+                    block[k + 1] = R().visit(lp)
+                    del block[k + 2]
+                    ast.fix_missing_locations(f)
+            k += 1
+        for s_ in block:
+            for fld in ("body", "orelse"):
+                b = getattr(s_, fld, None)
+                if isinstance(b, list) and b and isinstance(b[0], ast.stmt):
+                    go(b)
+    go(f.body)
+
+
+def _control(body, tail=True):
+    """merge `if a: S elif b: S`; push a trailing `return x` into the arms of the preceding `if`; drop `else` after an arm
+    that returns; `x = e; return x` -> `return e`"""
+    out = []
+    for st in body:
+        for fld in ("body", "orelse"):
+            b = getattr(st, fld, None)
+            if isinstance(b, list) and b and isinstance(b[0], ast.stmt):
+                setattr(st, fld, _control(b, tail=False))
+        out.append(st)
+    # same-body arms
+    changed = True
+    while changed:
+        changed = False
+        for st in out:
+            if isinstance(st, ast.If) and len(st.orelse) == 1 and isinstance(st.orelse[0], ast.If) \
+                    and ast.dump(ast.Module(body=st.body, type_ignores=[])) == ast.dump(ast.Module(body=st.orelse[0].body, type_ignores=[])):
+                inner = st.orelse[0]
+                tests = (st.test.values if isinstance(st.test, ast.BoolOp) and isinstance(st.test.op, ast.Or) else [st.test]) + \
+                    (inner.test.values if isinstance(inner.test, ast.BoolOp) and isinstance(inner.test.op, ast.Or) else [inner.test])
+                st.test = ast.BoolOp(op=ast.Or(), values=tests)
+                st.orelse = inner.orelse
+                changed = True
+    if tail:
+        out = _push_return(out)
+    return out
+
+
+def _push_return(block):
+    """tail position of a function body"""
+    if len(block) >= 2 and isinstance(block[-1], ast.Return) and isinstance(block[-2], ast.If) and block[-1].value is not None \
+            and all(isinstance(n, (ast.Name, ast.Tuple, ast.Constant, ast.expr_context)) for n in ast.walk(block[-1].value)):
+        iff, ret = block[-2], block[-1]
+        iff.body = _push_return(iff.body + [ast.Return(value=ast.parse(ast.unparse(ret.value), mode="eval").body)])
+        iff.orelse = _push_return(iff.orelse + [ast.Return(value=ast.parse(ast.unparse(ret.value), mode="eval").body)])
+        block = block[:-1]
+    # x = e; return x  ->  return e
+    if len(block) >= 2 and isinstance(block[-1], ast.Return) and isinstance(block[-1].value, ast.Name) \
+            and isinstance(block[-2], ast.Assign) and len(block[-2].targets) == 1 and isinstance(block[-2].targets[0], ast.Name) \
+            and block[-2].targets[0].id == block[-1].value.id:
+        block = block[:-2] + [ast.Return(value=block[-2].value)]
+    # if c: ...return  else: B   ->  if c: ...return ; B
+    if block and isinstance(block[-1], ast.If):
+        iff = block[-1]
+        iff.body = _push_return(iff.body)
+        if _terminates(iff.body) and iff.orelse:
+            rest = iff.orelse
+            iff.orelse = []
+            block = block + _push_return(rest)
+        elif iff.orelse:
+            iff.orelse = _push_return(iff.orelse)
+    return block
+
+
+def _seq(fn):
+    """statements in textual order with their position, block and chain of enclosing (block, index)"""
+    order = []
+
+    def go(block, chain):
+        for k, st in enumerate(block):
+            order.append((st, chain + [(id(block), k)]))
+            for fld in ("body", "orelse", "finalbody"):
+                b = getattr(st, fld, None)
+                if isinstance(b, list) and b and isinstance(b[0], ast.stmt):
+                    go(b, chain + [(id(block), k)])
+    go(fn.body, [])
+    return order
+
+
+def _inline_temps(f: ast.FunctionDef, pure: set):
+    """write single-assignment locals with a side-effect-free value back into their uses (undoes hoisting of invariants
+    and common-subexpression temporaries); iterated to a fixed point"""
+    params = {a.arg for a in f.args.args}
+
+    def scalar_pure(e):
+        return all(isinstance(n, (ast.BinOp, ast.UnaryOp, ast.Name, ast.Constant, ast.operator, ast.unaryop, ast.expr_context, ast.Compare,
+                                  ast.cmpop)) or (isinstance(n, ast.Call) and isinstance(n.func, ast.Name) and n.func.id in _MATH_PURE)
+                   for n in ast.walk(e))
+
+    def merge_rebinding(block):
+        """x = A; x = B(x)  ->  x = B(A)   (adjacent statements, A a scalar expression)"""
+        k = 0
+        while k + 1 < len(block):
+            a, b = block[k], block[k + 1]
+            if isinstance(a, ast.Assign) and isinstance(b, ast.Assign) and len(a.targets) == 1 and len(b.targets) == 1 \
+                    and isinstance(a.targets[0], ast.Name) and isinstance(b.targets[0], ast.Name) and a.targets[0].id == b.targets[0].id \
+                    and scalar_pure(a.value) \
+                    and a.targets[0].id not in {n.id for n in ast.walk(a.value) if isinstance(n, ast.Name)}:
+                x, val = a.targets[0].id, a.value
+
+                class S(ast.NodeTransformer):
+                    def visit_Name(self, n):
+                        if n.id == x and isinstance(n.ctx, ast.Load):
+                            return ast.parse(ast.unparse(val), mode="eval").body
+                        return n
+                b.value = S().visit(b.value)
+                del block[k]
+                continue
+            k += 1
+        for st in block:
+            for fld in ("body", "orelse", "finalbody"):
+                bb = getattr(st, fld, None)
+                if isinstance(bb, list) and bb and isinstance(bb[0], ast.stmt):
+                    merge_rebinding(bb)
+    merge_rebinding(f.body)
+    for _round in range(400):
+        order = _seq(f)
+        pos = {id(st): k for k, (st, _) in enumerate(order)}
+        chain_of = {id(st): ch for st, ch in order}
+        stores: dict[str, list] = {}
+        arr_written, proc_args = set(), set()
+        for st, _ in order:
+            tg = []
+            if isinstance(st, ast.Assign):
+                tg = st.targets
+            elif isinstance(st, ast.For):
+                tg = [st.target]
+            for t in tg:
+                for n in ast.walk(t):
+                    if isinstance(n, ast.Name) and isinstance(n.ctx, ast.Store):
+                        stores.setdefault(n.id, []).append(st)
+                    elif isinstance(n, (ast.Subscript, ast.Attribute)) and isinstance(n.ctx, ast.Store):
+                        b = n
+                        while isinstance(b, (ast.Subscript, ast.Attribute)):
+                            b = b.value
+                        if isinstance(b, ast.Name):
+                            arr_written.add(b.id)
+            if isinstance(st, ast.Expr) and isinstance(st.value, ast.Call):
+                for n in ast.walk(st.value):
+                    if isinstance(n, ast.Name):
+                        proc_args.add(n.id)
+        # calls that are not known to be pure may write their array arguments
+        for st, _ in order:
+            for c in ast.walk(st):
+                if isinstance(c, ast.Call) and not (isinstance(c.func, ast.Name) and (c.func.id in pure or c.func.id in _NO_WRITE)):
+                    for a in list(c.args) + [k.value for k in c.keywords]:
+                        for n in ast.walk(a):
+                            if isinstance(n, ast.Name):
+                                proc_args.add(n.id)
+
+        # a view of an array (slice, bare alias) that is written or handed to a procedure: the array itself may change
+        for _ in range(3):
+            for st, _c in order:
+                if isinstance(st, ast.Assign) and len(st.targets) == 1 and isinstance(st.targets[0], ast.Name):
+                    y, val_ = st.targets[0].id, st.value
+                    while isinstance(val_, (ast.Subscript, ast.Attribute)):
+                        val_ = val_.value
+                    if isinstance(val_, ast.Name) and val_.id != y:
+                        if y in arr_written:
+                            arr_written.add(val_.id)
+                        if y in proc_args:
+                            proc_args.add(val_.id)
+
+        def pure_value(e):
+            for n in ast.walk(e):
+                if isinstance(n, ast.Call):
+                    if not (isinstance(n.func, ast.Name) and n.func.id in pure):
+                        return False
+                elif isinstance(n, (ast.Lambda, ast.ListComp, ast.GeneratorExp, ast.DictComp, ast.SetComp, ast.Await, ast.Yield,
+                                    ast.YieldFrom, ast.NamedExpr, ast.Starred, ast.List, ast.Dict, ast.Set)):
+                    return False
+                elif isinstance(n, ast.Subscript):
+                    b = n
+                    while isinstance(b, (ast.Subscript, ast.Attribute)):
+                        b = b.value
+                    if not isinstance(b, ast.Name):
+                        return False
+                    whole_shape = isinstance(n.value, ast.Attribute) and n.value.attr == "shape"
+                    if not whole_shape and (b.id in arr_written or b.id in proc_args):
+                        return False
+                    if any(isinstance(s_, ast.Slice) for s_ in (n.slice.elts if isinstance(n.slice, ast.Tuple) else [n.slice])):
+                        return False      # a slice is a view, not a value
+            return True
+
+        def tail_inline(block):
+            """in a block that ends with `return`, `x = A` (A a value) is written into the statements that follow it"""
+            if block and isinstance(block[-1], ast.Return):
+                for k in range(len(block) - 2, -1, -1):
+                    d = block[k]
+                    if not (isinstance(d, ast.Assign) and len(d.targets) == 1 and isinstance(d.targets[0], ast.Name)):
+                        continue
+                    x = d.targets[0].id
+                    ops = {n.id for n in ast.walk(d.value) if isinstance(n, ast.Name)}
+                    rest = block[k + 1:]
+                    if x in ops or x in arr_written or x in proc_args or not pure_value(d.value) \
+                            or any(not isinstance(r, (ast.Assign, ast.Expr, ast.Return)) for r in rest):
+                        continue
+                    rebound = {n.id for r in rest if isinstance(r, ast.Assign) for t in r.targets for n in ast.walk(t)
+                               if isinstance(n, ast.Name) and isinstance(n.ctx, ast.Store)}
+                    if x in rebound or ops & rebound:
+                        continue
+                    val = d.value
+
+                    class S(ast.NodeTransformer):
+                        def visit_Name(self, n):
+                            if n.id == x and isinstance(n.ctx, ast.Load):
+                                return ast.parse(ast.unparse(val), mode="eval").body
+                            return n
+                    for r in rest:
+                        for fld, e in _own_fields(r):
+                            _set_field(r, fld, S().visit(e))
+                    del block[k]
+                    return True
+            for st in block:
+                for fld in ("body", "orelse"):
+                    bb = getattr(st, fld, None)
+                    if isinstance(bb, list) and bb and isinstance(bb[0], ast.stmt) and tail_inline(bb):
+                        return True
+            return False
+        if tail_inline(f.body):
+            ast.fix_missing_locations(f)
+            continue
+        done = False
+        for name, sts in stores.items():
+            if name in params or len(sts) != 1:
+                continue
+            d = sts[0]
+            if not (isinstance(d, ast.Assign) and len(d.targets) == 1 and isinstance(d.targets[0], ast.Name)):
+                continue
+            if name in arr_written or name in proc_args:
+                continue       # an array (allocated here, filled elsewhere), not a value
+            if not pure_value(d.value) or name in {n.id for n in ast.walk(d.value) if isinstance(n, ast.Name)}:
+                continue
+            if not isinstance(d.value, (ast.Name, ast.Subscript)) and any(
+                    isinstance(n, ast.Subscript) and isinstance(n.value, ast.Name) and n.value.id == name for n in ast.walk(f)):
+                continue       # the result of whole-array arithmetic (it is indexed later): a new array, not a formula to repeat
+            dpos = pos[id(d)]
+            # operands are not re-bound after the definition
+            operands = {n.id for n in ast.walk(d.value) if isinstance(n, ast.Name)}
+            ok = not any(pos[id(s_)] > dpos for o in operands for s_ in stores.get(o, []))
+            if not ok:
+                continue
+            # every use is dominated by the definition: it lies in the definition's block after it
+            dchain = chain_of[id(d)]
+            dblock, dk = dchain[-1]
+            uses = []
+            for st, ch in order:
+                if st is d:
+                    continue
+                # names read by this statement itself (not by nested statements, which come separately)
+                own = _own_exprs(st)
+                if any(isinstance(n, ast.Name) and n.id == name for e in own for n in ast.walk(e)):
+                    uses.append((st, ch))
+                    if not _own_fields(st):
+                        ok = False        # a statement kind the substitution does not handle
+            for st, ch in uses:
+                inside = any(b == dblock and k > dk for b, k in ch)
+                if not inside:
+                    ok = False
+            if not ok:
+                continue
+            # substitute
+            val = d.value
+
+            class Sub(ast.NodeTransformer):
+                def visit_Name(self, n):
+                    if n.id == name and isinstance(n.ctx, ast.Load):
+                        return ast.parse(ast.unparse(val), mode="eval").body
+                    return n
+            for st, ch in uses:
+                for fld, e in _own_fields(st):
+                    new = Sub().visit(e)
+                    _set_field(st, fld, new)
+            _remove_stmt(f, d)
+            done = True
+            break
+        if not done:
+            break
+    return f
+
+
+def _own_fields(st):
+    """(field, expression) pairs evaluated by the statement itself"""
+    out = []
+    if isinstance(st, ast.Assign):
+        out = [("value", st.value)] + [(("targets", k), t) for k, t in enumerate(st.targets) if not isinstance(t, ast.Name)]
+    elif isinstance(st, ast.Expr):
+        out = [("value", st.value)]
+    elif isinstance(st, ast.Return) and st.value is not None:
+        out = [("value", st.value)]
+    elif isinstance(st, (ast.If, ast.While)):
+        out = [("test", st.test)]
+    elif isinstance(st, ast.For):
+        out = [("iter", st.iter)]
+    elif isinstance(st, ast.Assert):
+        out = [("test", st.test)]
+    return out
+
+
+def _own_exprs(st):
+    got = [e for _, e in _own_fields(st)]
+    if not got and not isinstance(st, (ast.If, ast.While, ast.For, ast.Assign, ast.Expr, ast.Return, ast.Pass, ast.Break, ast.Continue)):
+        return [st]          # unknown statement kind: every name in it counts as a use here
+    return got
+
+
+def _set_field(st, fld, new):
+    if isinstance(fld, tuple):
+        getattr(st, fld[0])[fld[1]] = new
+    else:
+        setattr(st, fld, new)
+
+
+def _remove_stmt(f, d):
+    def go(block):
+        for k, st in enumerate(block):
+            if st is d:
+                del block[k]
+                if not block:
+                    block.append(ast.Pass())
+                return True
+            for fld in ("body", "orelse", "finalbody"):
+                b = getattr(st, fld, None)
+                if isinstance(b, list) and b and isinstance(b[0], ast.stmt) and go(b):
+                    return True
+        return False
+    go(f.body)
+
+
+def _flatten_subscripts(f):
+    """X[i, j][k] is X[i, j, k]; X[i, :][k] is X[i, k]  (numpy arrays, full slices only)"""
+    def full(it):
+        return isinstance(it, ast.Slice) and it.lower is None and it.upper is None and it.step is None
+
+    class T(ast.NodeTransformer):
+        def visit_Subscript(self, n):
+            self.generic_visit(n)
+            if isinstance(n.value, ast.Subscript) and isinstance(n.value.ctx, ast.Load) and not (
+                    isinstance(n.value.value, ast.Attribute) and n.value.value.attr == "shape"):
+                inner = n.value.slice.elts if isinstance(n.value.slice, ast.Tuple) else [n.value.slice]
+                outer = list(n.slice.elts if isinstance(n.slice, ast.Tuple) else [n.slice])
+                if any(isinstance(it, ast.Slice) and not full(it) for it in inner) or any(
+                        isinstance(it, (ast.Constant,)) and it.value is None or isinstance(it, (ast.Starred,)) for it in inner + outer) \
+                        or any(isinstance(it, ast.Constant) and it.value is Ellipsis for it in inner + outer):
+                    return n
+                merged = []
+                for it in inner:
+                    merged.append(outer.pop(0) if full(it) and outer else it)
+                merged += outer
+                sl = merged[0] if len(merged) == 1 else ast.Tuple(elts=merged, ctx=ast.Load())
+                return ast.Subscript(value=n.value.value, slice=sl, ctx=n.ctx)
+            return n
+    return ast.fix_missing_locations(T().visit(f))
+
+
+def _sort_operands(f):
+    """a + b == b + a and a * b == b * a exactly; re-association of a chain changes the rounding only, which the
+    property allows: chains of + (and of *) are flattened and their operands ordered"""
+    class T(ast.NodeTransformer):
+        def visit_BinOp(self, n):
+            self.generic_visit(n)
+            if isinstance(n.op, (ast.Add, ast.Mult)):
+                ops = []
+
+                def flat_(x):
+                    if isinstance(x, ast.BinOp) and type(x.op) is type(n.op):
+                        flat_(x.left)
+                        flat_(x.right)
+                    else:
+                        ops.append(x)
+                flat_(n)
+                ops.sort(key=lambda x: ast.dump(x))
+                acc = ops[0]
+                for x in ops[1:]:
+                    acc = ast.BinOp(left=acc, op=type(n.op)(), right=x)
+                return acc
+            return n
+    return T().visit(f)
+
+
+def module_constants(tree: ast.Module) -> dict:
+    """module-level `NAME = <scalar expression>` bound once (e.g. TWO_PI = 2 * pi): usable inside the functions like a literal"""
+    seen: dict[str, list] = {}
+    for st in tree.body:
+        for n in ast.walk(st) if not isinstance(st, (ast.FunctionDef, ast.ClassDef)) else []:
+            if isinstance(n, ast.Name) and isinstance(n.ctx, ast.Store):
+                seen.setdefault(n.id, []).append(st)
+    out = {}
+    for name, sts in seen.items():
+        st = sts[0]
+        if len(sts) == 1 and isinstance(st, ast.Assign) and len(st.targets) == 1 and isinstance(st.targets[0], ast.Name) \
+                and all(isinstance(n, (ast.BinOp, ast.UnaryOp, ast.Name, ast.Constant, ast.operator, ast.unaryop, ast.expr_context, ast.Attribute))
+                        for n in ast.walk(st.value)):
+            out[name] = st.value
+    return out
+
+
+def _bound_names(fn, tree):
+    """names whose meaning is visible: parameters, locals, imports, module-level functions, builtins"""
+    import builtins
+    out = set(dir(builtins)) | {a.arg for a in fn.args.args + fn.args.kwonlyargs}
+    for n in ast.walk(fn):
+        if isinstance(n, ast.Name) and isinstance(n.ctx, ast.Store):
+            out.add(n.id)
+        elif isinstance(n, (ast.Import, ast.ImportFrom)):
+            out |= {(a.asname or a.name).split(".")[0] for a in n.names}
+    for st in (tree.body if tree is not None else []):
+        if isinstance(st, (ast.Import, ast.ImportFrom)):
+            out |= {(a.asname or a.name).split(".")[0] for a in st.names}
+        elif isinstance(st, (ast.FunctionDef, ast.ClassDef)):
+            out.add(st.name)
+    return out
+
+
+_NUMERIC_MODULES = {"numpy", "math", "cmath", "scipy"}
+
+
+def _import_aliases(fn, tree):
+    """{local name: imported name} for `from numpy import abs as np_abs`, and the names under which numeric modules are imported"""
+    ren, mods = {}, set()
+    nodes = [n for n in ast.walk(fn) if isinstance(n, (ast.Import, ast.ImportFrom))]
+    nodes += [st for st in (tree.body if tree is not None else []) if isinstance(st, (ast.Import, ast.ImportFrom))]
+    for n in nodes:
+        if isinstance(n, ast.ImportFrom) and (n.module or "").split(".")[0] in _NUMERIC_MODULES:
+            for a in n.names:
+                if a.asname and a.asname != a.name:
+                    ren[a.asname] = a.name
+        elif isinstance(n, ast.Import):
+            for a in n.names:
+                if a.name.split(".")[0] in _NUMERIC_MODULES:
+                    mods.add(a.asname or a.name.split(".")[0])
+    return ren, mods
+
+
+def canon_fn(fn: ast.FunctionDef, pure: set, tree: ast.Module = None) -> ast.FunctionDef:
+    ren, mods = _import_aliases(fn, tree)
+    f = _strip(fn)
+    if ren or mods:
+        local = {a.arg for a in f.args.args} | {n.id for n in ast.walk(f) if isinstance(n, ast.Name) and isinstance(n.ctx, ast.Store)}
+
+        class A(ast.NodeTransformer):
+            def visit_Name(self, n):
+                if isinstance(n.ctx, ast.Load) and n.id in ren and n.id not in local and ren[n.id] not in local:
+                    return ast.Name(id=ren[n.id], ctx=ast.Load())
+                return n
+
+            def visit_Attribute(self, n):
+                self.generic_visit(n)
+                if isinstance(n.value, ast.Name) and n.value.id in mods and n.value.id not in local and n.attr not in local \
+                        and isinstance(n.ctx, ast.Load):
+                    return ast.Name(id=n.attr, ctx=ast.Load())          # np.abs -> abs
+                return n
+        f = ast.fix_missing_locations(A().visit(f))
+    if tree is not None:
+        consts = module_constants(tree)
+        local = {a.arg for a in f.args.args} | {n.id for n in ast.walk(f) if isinstance(n, ast.Name) and isinstance(n.ctx, ast.Store)}
+        for _ in range(3):        # constants defined from constants
+
+            class C(ast.NodeTransformer):
+                def visit_Name(self, n):
+                    if isinstance(n.ctx, ast.Load) and n.id in consts and n.id not in local:
+                        return ast.parse(ast.unparse(consts[n.id]), mode="eval").body
+                    return n
+            f = C().visit(f)
+    _wrap_loops(f.body)
+    _accumulators(f)
+    f.body = _control(f.body) or [ast.Pass()]
+    f = _inline_temps(f, pure)
+    f.body = [s for s in f.body if not isinstance(s, ast.Pass)] or [ast.Pass()]
+    f = _flatten_subscripts(f)
+    f = _sort_operands(f)
+    f = ast.parse(ast.unparse(ast.fix_missing_locations(f))).body[0]
+    return f
+
+
+# ---------------------------------------------------------------------------------------------------------
+# statement-by-statement comparison of two canonical bodies with the same control skeleton
+# ---------------------------------------------------------------------------------------------------------
+
+class _Skeleton(Exception):
+    pass
+
+
+_GUARDS = {}      # id(statement of the copy) -> conditions (of either side) the statement is control dependent on
+
+
+def _pair_bodies(a, b, out, guards=()):
+    if len(a) != len(b):
+        raise _Skeleton(f"{len(a)} statements against {len(b)}")
+    guards = tuple(guards)
+    for x, y in zip(a, b):
+        if type(x) is not type(y):
+            raise _Skeleton(f"`{src(x).splitlines()[0][:50]}` against `{src(y).splitlines()[0][:50]}`")
+        _GUARDS[id(y)] = guards
+        if isinstance(x, ast.Assign):
+            if len(x.targets) != len(y.targets):
+                raise _Skeleton("assignment targets")
+            for t, u in zip(x.targets, y.targets):
+                if _base_name(t) != _base_name(u) or type(t) is not type(u):
+                    # another variable is assigned here: statements re-ordered or renamed, not an operand slip
+                    raise _Skeleton(f"`{src(x)[:50]}` assigns `{_base_name(t)}`, its counterpart `{_base_name(u)}`")
+                out.append((t, u, x, y, "target"))
+            out.append((x.value, y.value, x, y, "value"))
+        elif isinstance(x, (ast.Expr, ast.Return)):
+            if (x.value is None) != (y.value is None):
+                raise _Skeleton("return value")
+            if x.value is not None:
+                out.append((x.value, y.value, x, y, "value"))
+        elif isinstance(x, (ast.If, ast.While)):
+            out.append((x.test, y.test, x, y, "condition"))
+            inner = guards + (x.test, y.test)
+            _pair_bodies(x.body, y.body, out, inner)
+            _pair_bodies(x.orelse, y.orelse, out, inner)
+            if isinstance(x, ast.If) and (_terminates(x.body) or _terminates(y.body)):
+                guards = inner          # what follows an arm that returns runs under the negated condition
+        elif isinstance(x, ast.For):
+            if ast.dump(x.target) != ast.dump(y.target):
+                raise _Skeleton(f"loop over `{src(x.target)}` against loop over `{src(y.target)}`")
+            out.append((x.iter, y.iter, x, y, "loop range"))
+            _pair_bodies(x.body, y.body, out, guards)
+            _pair_bodies(x.orelse, y.orelse, out, guards)
+        elif isinstance(x, (ast.Pass, ast.Break, ast.Continue)):
+            pass
+        else:
+            if ast.dump(x) != ast.dump(y):
+                raise _Skeleton(f"statement `{src(x)[:50]}`")
+
+
+def _equality_knowledge(stmt, a, b):
+    """does the statement run under an (in)equality test that mentions names of the two expressions?  Then one side may be
+    the other rewritten with that equality (span == ncells: `span + 2` is `ncells + 2`), which is no operand slip"""
+    names = {n.id for e in (a, b) for n in ast.walk(e) if isinstance(n, ast.Name)}
+    for g in _GUARDS.get(id(stmt), ()):
+        for c in ast.walk(g):
+            if isinstance(c, ast.Compare) and any(isinstance(o, (ast.Eq, ast.NotEq)) for o in c.ops):
+                if names & {n.id for n in ast.walk(c) if isinstance(n, ast.Name)}:
+                    return True
+    return False
+
+
+def _base_name(t):
+    while isinstance(t, (ast.Subscript, ast.Attribute, ast.Starred)):
+        t = t.value
+    return t.id if isinstance(t, ast.Name) else src(t)
+
+
+def _to_sym(e, atoms):
+    """arithmetic expression -> sympy, everything that is not arithmetic (subscripts, calls, attributes) an uninterpreted atom
+    of its canonical arguments"""
+    import sympy as sp
+    if isinstance(e, ast.Constant):
+        if isinstance(e.value, bool) or not isinstance(e.value, (int, float)):
+            raise Undecided("constant")
+        return sp.Integer(e.value) if isinstance(e.value, int) else sp.Rational(repr(e.value))
+    if isinstance(e, ast.Name):
+        return sp.Symbol("pi", positive=True) if e.id == "pi" else sp.Symbol(e.id)
+    if isinstance(e, ast.Attribute) and src(e) in ("np.pi", "numpy.pi", "math.pi"):
+        return sp.Symbol("pi", positive=True)
+    if isinstance(e, ast.Call) and not e.keywords and len(e.args) == 1 and src(e.func).split(".")[-1] in ("sqrt", "exp", "tanh", "cos", "sin") \
+            and src(e.func).split(".")[0] in ("np", "numpy", "math", src(e.func)):
+        return getattr(sp, src(e.func).split(".")[-1])(_to_sym(e.args[0], atoms))
+    if isinstance(e, ast.UnaryOp) and isinstance(e.op, (ast.USub, ast.UAdd)):
+        v = _to_sym(e.operand, atoms)
+        return -v if isinstance(e.op, ast.USub) else v
+    if isinstance(e, ast.BinOp):
+        a, b = _to_sym(e.left, atoms), _to_sym(e.right, atoms)
+        if isinstance(e.op, ast.Add):
+            return a + b
+        if isinstance(e.op, ast.Sub):
+            return a - b
+        if isinstance(e.op, ast.Mult):
+            return a * b
+        if isinstance(e.op, ast.Div):
+            return a / b
+        if isinstance(e.op, ast.Pow):
+            return a ** b
+        if isinstance(e.op, ast.FloorDiv):
+            return sp.Function("floordiv")(a, b)
+        if isinstance(e.op, ast.Mod):
+            return sp.Function("pymod")(a, b)
+        raise Undecided("operator")
+    if isinstance(e, ast.Subscript):
+        items = e.slice.elts if isinstance(e.slice, ast.Tuple) else [e.slice]
+        args = []
+        for it in items:
+            if isinstance(it, ast.Slice):
+                args.append(sp.Function("slice_")(*[sp.Symbol("none_") if x is None else _to_sym(x, atoms) for x in (it.lower, it.upper, it.step)]))
+            else:
+                args.append(_to_sym(it, atoms))
+        return sp.Function("at_" + src(e.value).replace(".", "_"))(*args)
+    if isinstance(e, ast.Call) and not e.keywords and len(e.args) == 2 and src(e.func).split(".")[-1] == "mod":
+        return sp.Function("pymod")(_to_sym(e.args[0], atoms), _to_sym(e.args[1], atoms))
+    if isinstance(e, ast.Call) and not e.keywords and not any(isinstance(a, ast.Starred) for a in e.args):
+        return sp.Function("call_" + src(e.func).replace(".", "_"))(*[_to_sym(a, atoms) for a in e.args])
+    if isinstance(e, ast.Attribute):
+        return sp.Symbol(src(e).replace(".", "_"))
+    raise Undecided("expression")
+
+
+def expr_same(a, b):
+    """True: equal (identical, or equal as rational functions over uninterpreted atoms); False: recognisably different;
+    None: cannot tell"""
+    if ast.dump(a) == ast.dump(b):
+        return True
+    if isinstance(a, ast.Compare) or isinstance(b, ast.Compare):
+        if not (isinstance(a, ast.Compare) and isinstance(b, ast.Compare)) or len(a.ops) != len(b.ops):
+            return None
+        if [type(o) for o in a.ops] != [type(o) for o in b.ops]:
+            # a < b against b > a was normalised away: a different operator is a different condition when the operands agree
+            same_operands = all(expr_same(x, y) is True for x, y in zip([a.left] + a.comparators, [b.left] + b.comparators))
+            return False if same_operands else None
+        rs = [expr_same(x, y) for x, y in zip([a.left] + a.comparators, [b.left] + b.comparators)]
+        return False if False in rs else (None if None in rs else True)
+    if isinstance(a, ast.BoolOp) or isinstance(b, ast.BoolOp):
+        if not (isinstance(a, ast.BoolOp) and isinstance(b, ast.BoolOp)) or len(a.values) != len(b.values):
+            return None
+        if type(a.op) is not type(b.op):
+            return False
+        rs = [expr_same(x, y) for x, y in zip(a.values, b.values)]
+        return False if False in rs else (None if None in rs else True)
+    if isinstance(a, ast.UnaryOp) and isinstance(a.op, ast.Not) and isinstance(b, ast.UnaryOp) and isinstance(b.op, ast.Not):
+        return expr_same(a.operand, b.operand)
+    if isinstance(a, ast.Tuple) and isinstance(b, ast.Tuple) and len(a.elts) == len(b.elts):
+        rs = [expr_same(x, y) for x, y in zip(a.elts, b.elts)]
+        return False if False in rs else (None if None in rs else True)
+    if isinstance(a, ast.Call) and isinstance(b, ast.Call) and not a.keywords and not b.keywords:
+        if src(a.func) != src(b.func):
+            return False if len(a.args) == len(b.args) and all(expr_same(x, y) is True for x, y in zip(a.args, b.args)) else None
+        if len(a.args) != len(b.args):
+            return False
+        rs = [expr_same(x, y) for x, y in zip(a.args, b.args)]
+        return False if False in rs else (None if None in rs else True)
+    if isinstance(a, ast.Subscript) and isinstance(b, ast.Subscript) and isinstance(a.ctx, ast.Store):
+        if src(a.value) != src(b.value):
+            return False
+    try:
+        import sympy as sp
+        sa, sb = _to_sym(a, None), _to_sym(b, None)
+        d = sp.together(sa - sb)
+        num = sp.expand(sp.numer(d))
+        if num == 0:
+            return True
+        return True if _numerically_equal(sa, sb) else False
+    except Exception:
+        return None
+
+
+def _numerically_equal(sa, sb):
+    """two formulas that differ as written but agree (to rounding) at random values of all their atoms: the same function, e.g.
+    1/6 against 0.16666666666666666, exp(a)*exp(b) against exp(a + b)"""
+    import random
+    import sympy as sp
+    from sympy.core.function import AppliedUndef
+    atoms = list((sa - sb).atoms(sp.Symbol)) + list((sa - sb).atoms(AppliedUndef))
+    if not atoms:
+        try:
+            return abs(complex(sp.N(sa - sb, 30))) < 1e-13 * (1 + abs(complex(sp.N(sa, 30))))
+        except Exception:
+            return False
+    rnd = random.Random(20260925)
+    try:
+        for _ in range(3):
+            rule = {a_: sp.Float(rnd.uniform(0.6, 1.9), 30) for a_ in atoms}
+            va, vb = complex(sp.N(sa.xreplace(rule), 30)), complex(sp.N(sb.xreplace(rule), 30))
+            if not (abs(va - vb) <= 1e-12 * (abs(va) + abs(vb) + 1e-30)):
+                return False
+        return True
+    except Exception:
+        return False
+
+
 def consumers(chk):
     """{kernel module rel: set of function names the library imports from it}"""
     want = {k: set() for k in U.KERNELS}
@@ -62,10 +969,211 @@ def consumers(chk):
     return want
 
 
+LIBS = [U.SPLINES, U.INTERP, U.ADV, U.ADVK, U.POISSON, U.INITIALISER, U.CU, U.NU, U.INITF, U.PTOOLS]
+
+
+def keyword_calls(chk):
+    """{function name: set of keyword names some library call passes}"""
+    out: dict[str, set] = {}
+    for rel in LIBS:
+        for c in ast.walk(chk.mod(rel).tree):
+            if isinstance(c, ast.Call) and c.keywords:
+                name = c.func.id if isinstance(c.func, ast.Name) else c.func.attr if isinstance(c.func, ast.Attribute) else None
+                if name:
+                    out.setdefault(name, set()).update(k.arg for k in c.keywords if k.arg)
+    return out
+
+
+def parameter_lists(chk, fn, vf, q, kwcalls):
+    """calls written for the reference bind the same way in the copy -> (True/False/None, why)"""
+    pa, pb = [a.arg for a in fn.args.args], [a.arg for a in vf.args.args]
+    da, db = list(fn.args.defaults), list(vf.args.defaults)
+    if vf.args.vararg or vf.args.kwarg or vf.args.kwonlyargs or fn.args.vararg or fn.args.kwarg or fn.args.kwonlyargs:
+        same = ast.dump(_bare_args(fn)) == ast.dump(_bare_args(vf))
+        return (True, "same parameter list") if same else (None, "variadic / keyword-only parameters: binding not compared")
+    if len(pb) < len(pa):
+        return False, (f"the copy takes {len(pb)} parameters {pb}, the reference {len(pa)} {pa}: a call that passes all arguments of the "
+                       "reference does not bind")
+    req_a, req_b = len(pa) - len(da), len(pb) - len(db)
+    if req_b > len(pa):
+        return False, (f"the copy requires {req_b} arguments {pb[:req_b]}, the reference takes only {len(pa)}: calls written for the "
+                       "reference do not bind")
+    if req_b > req_a:
+        lost = pa[req_a:req_b]
+        return False, (f"the copy has no default for {lost}, which the reference has ({[src(d) for d in da[:len(lost)]]}): calls that "
+                       "rely on the default fail, or the copy is called with other values than the reference")
+    # defaults of the shared optional parameters
+    for k in range(req_a, len(pa)):
+        ea, eb = da[k - req_a], db[k - req_b]
+        r = expr_same(ea, eb)
+        if r is False:
+            return False, (f"default of parameter {k + 1} `{pb[k]}` is `{src(eb)}`, the reference has `{src(ea)}`: a call that omits it "
+                           "computes something else in the copy")
+        if r is None:
+            return None, f"defaults `{src(eb)}` / `{src(ea)}` of parameter {k + 1} not comparable"
+    renamed = [(x, y) for x, y in zip(pa, pb) if x != y]
+    if renamed:
+        used = sorted(x for x, _ in renamed if x in kwcalls.get(q, set()))
+        if used:
+            return False, (f"parameters {used} of the reference are called {[y for x, y in renamed if x in used]} in the copy and a "
+                           "library call passes them by keyword: the call does not bind in the copy")
+        return True, (f"positional parameters renamed {renamed}; no library call passes them by keyword; "
+                      "every default of the reference is kept")
+    return True, "same positional parameters; every default of the reference is kept"
+
+
+def _bare_args(fn):
+    a = ast.parse(ast.unparse(fn)).body[0].args
+    for x in a.args + a.kwonlyargs + a.posonlyargs + [y for y in (a.vararg, a.kwarg) if y]:
+        x.annotation = None
+    return a
+
+
+def _rename_params(vf, pa):
+    """the copy with its positional parameters called as in the reference (None when that would capture a local)"""
+    pb = [a.arg for a in vf.args.args]
+    if pb == pa:
+        return vf
+    if len(pb) < len(pa):
+        return None
+    ren = {y: x for x, y in zip(pa, pb) if x != y}
+    others = {n.id for n in ast.walk(vf) if isinstance(n, ast.Name)} | set(pb)
+    if any(x in others and x not in ren for x in ren.values()):
+        return None
+    f = ast.parse(ast.unparse(vf)).body[0]
+    for a in f.args.args:
+        a.arg = ren.get(a.arg, a.arg)
+    for n in ast.walk(f):
+        if isinstance(n, ast.Name) and n.id in ren:
+            n.id = ren[n.id]
+    return f
+
+
+def body_equivalence(chk, ref, v, q, fn, vf, vm, flavour, pure):
+    """V4 ladder: identical / identical in canonical form / proved against the specification formula / same statements with
+    expressions compared one by one -> True (proved), False (violation recorded), None (undecided, recorded)"""
+    R = "V4-body-equivalence"
+    con = f"{v}:{q}"
+    if norm_fn(fn) == norm_fn(vf):
+        chk.ob(R, vf, con, True, "AST-identical to the reference after stripping decorators, annotations, docstrings and local "
+               "imports", file=v, func=q)
+        return True
+    vfr = _rename_params(vf, [a.arg for a in fn.args.args])
+    ca = cb = None
+    canon_err = None
+    try:
+        if vfr is not None:
+            ca, cb = canon_fn(fn, pure, chk.mod(ref).tree), canon_fn(vfr, pure, vm.tree)
+            ca.args, cb.args = _bare_args(ca), _bare_args(ca)      # parameter lists are V1's business
+    except Exception as e:       # the canonical form is a recognition aid: failing to build it decides nothing
+        canon_err = f"{type(e).__name__}: {e}"
+        ca = cb = None
+    if ca is not None and ast.dump(ca) == ast.dump(cb):
+        chk.ob(R, vf, con, True, "identical to the reference in canonical form (single-assignment temporaries and hoisted invariants "
+               "written back, result variable / early return, `if` arms with one body, shape unpacking, `+=`, operand order of + and *)",
+               file=v, func=q)
+        return True
+    res, why = spec_check(chk, v, q, vm)
+    if res is False:
+        return False
+    if res is True:
+        if q == "f_eq":
+            return True           # compared with the reference's formula directly
+        rres, rwhy = reference_spec(chk, ref, q, pure)
+        if rres is True:
+            return True
+        if rres is False:
+            chk.ob(R, vf, con, False, f"the {flavour} copy satisfies the specification formula of `{q}`, the reference {ref} does not (see the "
+                   "obligations recorded for the reference): the copy does not compute what the source it mirrors computes",
+                   file=v, func=q)
+            return False
+        why = f"the copy satisfies the specification formula but the reference could not be checked against it ({rwhy})"
+    # no (applicable) specification formula: compare statement by statement
+    pairs = []
+    if ca is None:
+        chk.ob(R, vf, con, None, f"body differs from the reference; {why}; canonical form not available ({canon_err or 'parameters'})",
+               file=v, func=q)
+        return None
+    try:
+        _GUARDS.clear()
+        _pair_bodies(ca.body, cb.body, pairs)
+    except _Skeleton as e:
+        chk.ob(R, vf, con, None, f"body differs from the reference `{ref}` in its statement structure ({e}) and {why}: equivalence "
+               "not decided", file=v, func=q)
+        return None
+    known_a, known_b = _bound_names(fn, chk.mod(ref).tree), _bound_names(vfr, vm.tree)
+
+    def judged(a, b, sb):
+        r = expr_same(a, b)
+        if r is False:
+            # a name whose binding is not visible here (module-level variable, ...) may stand for anything
+            free = ({n.id for n in ast.walk(a) if isinstance(n, ast.Name)} - known_a) | ({n.id for n in ast.walk(b) if isinstance(n, ast.Name)} - known_b)
+            if free or _equality_knowledge(sb, a, b):
+                return None
+        return r
+    verdicts = [(judged(a, b, sb), a, b, sa, sb, what) for a, b, sa, sb, what in pairs]
+    wrong = [x for x in verdicts if x[0] is False]
+    unknown = [x for x in verdicts if x[0] is None]
+    differing = [x for x in verdicts if x[0] is not True]
+    if len({id(x[3]) for x in differing}) >= 2 and \
+            sorted({id(x[3]): ast.dump(x[3]) for x in differing}.values()) == sorted({id(x[4]): ast.dump(x[4]) for x in differing}.values()):
+        chk.ob(R, vf, con, None, "the copy has the statements of the reference in another order; whether the re-ordered statements are "
+               f"independent is not decided ({why})", file=v, func=q)
+        return None
+    for _, a, b, sa, sb, what in wrong[:4]:
+        head = src(sb).splitlines()[0][:70]
+        chk.ob(R, vf, f"{con}: {what} of `{head}`", False,
+               f"the {flavour} copy has `{_short(b)}` where the reference {ref.split('/')[-1]} has `{_short(a)}` ({what} of `{head}`); all "
+               "other statements correspond one to one, and the two expressions are not equal as formulas: the copy does not compute "
+               "what the source it mirrors computes", file=v, func=q)
+    if wrong:
+        return False
+    if unknown:
+        _, a, b, sa, sb, what = unknown[0]
+        chk.ob(R, vf, con, None, f"statements correspond one to one but `{_short(b)}` against `{_short(a)}` ({what}) could not be "
+               f"compared; {why}", file=v, func=q)
+        return None
+    n = sum(1 for x in verdicts if ast.dump(x[1]) != ast.dump(x[2]))
+    chk.ob(R, vf, con, True, f"same statements as the reference; the {n} expression(s) written differently are equal as rational "
+           "functions of their operands (re-association only)", file=v, func=q)
+    return True
+
+
+def _short(e, n=110):
+    t = src(e).replace("\n", " ")
+    return t if len(t) <= n else t[:n] + "..."
+
+
+
+def reference_inputs(chk):
+    """V5 on the reference kernels themselves: an array annotated Final is not written, also not through a view (pyccel checks
+    direct stores only; a store through a slice of the array changes the caller's data in the interpreted kernel)"""
+    from .. import lints
+    for ref in U.KERNELS:
+        rm = chk.mod(ref)
+        for q, fn in rm.functions().items():
+            if "." in q:
+                continue
+            final = {a.arg for a in fn.args.args if a.annotation is not None and "Final" in src(a.annotation)
+                     and "[" in src(a.annotation).replace("Final[", "", 1)}
+            if not final:
+                continue
+            muts = list(lints.shared_state_mutations(fn, lambda s_, final=final: s_ in final))
+            for node, desc in muts:
+                chk.ob("V5-inputs-not-written", node, f"{ref}:{q}: {src(node)[:70]}", False,
+                       desc.replace("the stored", "the caller's read-only input") + f" - `{q}` declares {sorted(final)} Final: the interpreted "
+                       "kernel changes the caller's array (every later call sees other data), which the declaration promises the compiled "
+                       "kernel never does", file=ref, func=q)
+            chk.ob("V5-inputs-not-written", fn, f"{ref}:{q} leaves {sorted(final)} unchanged", not muts,
+                   "no store, in-place update or overwrite flag reaches an array declared Final, directly or through a view" if not muts else
+                   f"{len(muts)} write(s) reach an array declared Final (listed separately)", file=ref, func=q, nontrivial=False)
+
+
 def variant_agreement(chk):
     want = consumers(chk)
     proved = unproved = 0
-    from . import C07, C12
+    pure = pure_functions(chk)
+    kwcalls = keyword_calls(chk)
     for ref, variants in U.VARIANTS.items():
         rm = chk.mod(ref)
         for v in variants:
@@ -82,17 +1190,31 @@ def variant_agreement(chk):
                     continue
                 vf = vm.func(q)
                 pa, pb = [a.arg for a in fn.args.args], [a.arg for a in vf.args.args]
-                da, db = [src(d) for d in fn.args.defaults], [src(d) for d in vf.args.defaults]
-                # a copy may add defaults (calls written for the reference still bind); it may not drop or change one
-                okp = pa == pb and len(db) >= len(da) and (db[len(db) - len(da):] == da if da else True)
-                chk.ob("V1-parameter-lists", vf, f"{v}:{q}", okp, "same positional parameters; every default of the reference is kept" if okp else
-                       f"parameters {pb} (defaults {db}) differ from the reference {pa} (defaults {da})", file=v, func=q, nontrivial=False)
+                okp, whyp = parameter_lists(chk, fn, vf, q, kwcalls)
+                chk.ob("V1-parameter-lists", vf, f"{v}:{q}", okp, whyp, file=v, func=q, nontrivial=False)
                 # V2: export arity
-                ar = export_arity(vm, q, flavour)
-                if ar is not None:
-                    oka = ar == len(pb)
-                    chk.ob("V2-export-arity", vf, f"{v}:{q} export signature", oka, f"export declares {ar} arguments = def arity" if oka else
-                           f"export declares {ar} arguments but the function takes {len(pb)}", file=v, func=q, nontrivial=False)
+                ars = export_arities(vm, q, flavour)
+                if ars:
+                    bad = [x for x in ars if x is not None and x != len(pb)]
+                    oka = False if bad else (None if any(x is None for x in ars) else True)
+                    chk.ob("V2-export-arity", vf, f"{v}:{q} export signature", oka,
+                           f"export declares {ars[0]} arguments = def arity" if oka else
+                           f"export declares {bad[0]} arguments but the function takes {len(pb)}: the {flavour} build rejects the module or "
+                           "exports a function the library cannot call" if bad else "export signature not in a recognised form",
+                           file=v, func=q, nontrivial=False)
+                # V2b: the exported argument types are those the reference kernel declares (kind and rank)
+                ann = [_type_kind(src(a.annotation)) if a.annotation is not None else None for a in fn.args.args]
+                sigs = [sg for sg in export_types(vm, q, flavour) if len(sg) == len(ann)]
+                if sigs and all(a is not None for a in ann) and all(x is not None for sg in sigs for x in sg):
+                    okt = any(sg == ann for sg in sigs)
+                    diffs = [(k, sg[k]) for sg in sigs[:1] for k in range(len(ann)) if sg[k] != ann[k]]
+                    chk.ob("V2-export-types", vf, f"{v}:{q} exported argument types", okt,
+                           "an export signature declares, argument by argument, the kind (int/float/bool/complex) and rank the reference "
+                           "kernel is annotated with" if okt else
+                           f"no export signature of the {flavour} copy has the argument types of the reference: argument {diffs[0][0] + 1} "
+                           f"`{pb[diffs[0][0]] if diffs[0][0] < len(pb) else '?'}` is exported as {diffs[0][1][0]} of rank {diffs[0][1][1]}, the "
+                           f"reference declares {ann[diffs[0][0]][0]} of rank {ann[diffs[0][0]][1]}: the compiled copy converts or rejects the "
+                           "arguments the library passes to the pyccel kernel", file=v, func=q, nontrivial=False)
                 # V5: arrays the reference declares read-only (Final) are not written by the copy, also not through a view
                 final = {a.arg for a in fn.args.args if a.annotation is not None and "Final" in src(a.annotation)
                          and "[" in src(a.annotation).replace("Final[", "", 1)}
@@ -121,20 +1243,24 @@ def variant_agreement(chk):
                                f"{sorted(final)} Final (never written); this copy changes the caller's array, so later calls give other "
                                "results than the reference", file=v, func=hq)
                     chk.ob("V5-inputs-not-written", vf, f"{v}:{q} leaves {sorted(final)} unchanged", not muts,
-                           f"no store, in-place update or overwrite flag reaches an input array of the reference, directly, through a view or in "
-                           f"the {len(seen_h) - 1} helper(s) it is handed to", file=v, func=q, nontrivial=False)
+                           (f"no store, in-place update or overwrite flag reaches an input array of the reference, directly, through a view or in "
+                            f"the {len(seen_h) - 1} helper(s) it is handed to") if not muts else
+                           f"{len(muts)} write(s) reach an input array the reference never writes (listed separately)",
+                           file=v, func=q, nontrivial=False)
                 # V4: body equivalence
-                if norm_fn(fn) == norm_fn(vf):
-                    proved += 1
-                    chk.ob("V4-body-equivalence", vf, f"{v}:{q}", True, "AST-identical to the reference after stripping decorators, "
-                           "annotations, docstrings and local imports", file=v, func=q)
-                    continue
-                res = spec_check(chk, v, q, vm)
+                try:
+                    res = body_equivalence(chk, ref, v, q, fn, vf, vm, flavour, pure)
+                except (AnalysisError, Undecided) as e:
+                    res = None
+                    chk.ob("V4-body-equivalence", vf, f"{v}:{q}", None, f"comparison with the reference not possible: {e}", file=v, func=q)
+                except Exception as e:      # a defect of the comparison itself decides nothing about the kernel
+                    res = None
+                    chk.ob("V4-body-equivalence", vf, f"{v}:{q}", None, f"comparison with the reference failed ({type(e).__name__}: {e})",
+                           file=v, func=q)
                 if res is True:
                     proved += 1
                 elif res is None:
                     unproved += 1
-                    chk.note(f"variant body not proved equivalent (no specification formula): {v}:{q}")
     chk.extra["variant_bodies_proved"] = proved
     chk.extra["variant_bodies_unproved"] = unproved
     if proved < 55:
@@ -144,49 +1270,180 @@ def variant_agreement(chk):
                  ("pygyro/splines/pythran_cubic_uniform_spline_eval_funcs.py", "pygyro/advection/pythran_deps/pythran_cubic_uniform_spline_eval_funcs.py"),
                  ("pygyro/initialisation/pythran_initialiser_funcs.py", "pygyro/advection/pythran_deps/pythran_initialiser_funcs.py")):
         ma, mb = chk.mod(a), chk.mod(b)
-        ok = ast.dump(ma.tree) == ast.dump(mb.tree)
-        chk.ob("V3-duplicate-identity", mb.tree, f"{b} == {a}", ok, "the copy used as a pythran dependency is AST-identical to its sibling"
-               if ok else "the two copies of the same pythran module differ", file=b, func="<module>")
+        R3, con = "V3-duplicate-identity", f"{b} == {a}"
+        if os.path.realpath(ma.path) == os.path.realpath(mb.path):
+            chk.ob(R3, mb.tree, con, True, "the copy used as a pythran dependency is a symbolic link to its sibling", file=b, func="<module>")
+            continue
+        # the text as written (the per-file normalisation of the loader must not make two equal files look different)
+        ta, tb = ast.parse(ma.src), ast.parse(mb.src)
+        if ast.dump(ta) == ast.dump(tb):
+            chk.ob(R3, mb.tree, con, True, "the copy used as a pythran dependency is AST-identical to its sibling", file=b, func="<module>")
+            continue
+        fa = {f.name: f for f in ta.body if isinstance(f, ast.FunctionDef)}
+        fb = {f.name: f for f in tb.body if isinstance(f, ast.FunctionDef)}
+        only = sorted(set(fa) ^ set(fb))
+        if only:
+            chk.ob(R3, mb.tree, con, False, f"the two copies of the same pythran module do not define the same functions: {only} exist in one "
+                   "of them only - which of the two is compiled depends on the kernel being built", file=b, func="<module>")
+            continue
+        verdict, detail = True, ""
+        for name in fa:
+            try:
+                ca, cb = canon_fn(fa[name], pure, ta), canon_fn(fb[name], pure, tb)
+            except Exception as e:
+                verdict, detail = None, f"{name}: canonical form not available ({type(e).__name__})"
+                break
+            if ast.dump(ca) == ast.dump(cb):
+                continue
+            pairs = []
+            try:
+                _GUARDS.clear()
+                _pair_bodies(ca.body, cb.body, pairs)
+                args_same = ast.dump(ca.args) == ast.dump(cb.args)
+            except _Skeleton as e:
+                if verdict is True:
+                    verdict, detail = None, f"`{name}` is structured differently in the two copies ({e})"
+                continue
+            bad = [(x, y, what) for x, y, _, sy, what in pairs if expr_same(x, y) is False and not _equality_knowledge(sy, x, y)]
+            if bad or not args_same:
+                x, y, what = bad[0] if bad else (ca.args, cb.args, "parameter list")
+                verdict, detail = False, f"`{name}`: `{_short(y)}` in {b} against `{_short(x)}` in {a} ({what})"
+                break
+            if any(expr_same(x, y) is None for x, y, _, _, _ in pairs) and verdict is True:
+                verdict, detail = None, f"`{name}`: expressions not comparable"
+        rest_a = [ast.dump(st) for st in ta.body if not isinstance(st, ast.FunctionDef) and not _is_docstring(st)]
+        rest_b = [ast.dump(st) for st in tb.body if not isinstance(st, ast.FunctionDef) and not _is_docstring(st)]
+        if verdict is True and rest_a != rest_b:
+            verdict, detail = None, "module-level statements (imports, constants) differ"
+        chk.ob(R3, mb.tree, con, verdict,
+               "the two copies are written differently but every function is the same in canonical form" if verdict is True else
+               (f"the two copies of the same pythran module compute different things: {detail}; which of them is compiled depends on "
+                "the kernel being built (the advection kernel takes the one under pythran_deps)") if verdict is False else
+               f"the two copies of the same pythran module differ and their equivalence is not decided: {detail}", file=b, func="<module>")
 
 
-def export_arity(vm, q, flavour):
+def _count_top_level(sig: str) -> int:
+    sig = sig.strip()
+    if not sig:
+        return 0
+    depth, n = 0, 1
+    for ch in sig:
+        if ch in "([":
+            depth += 1
+        elif ch in ")]":
+            depth -= 1
+        elif ch == "," and depth == 0:
+            n += 1
+    return n
+
+
+def export_arities(vm, q, flavour):
+    """argument counts of every export declaration of q (pythran comment lines, numba cc.export decorators)"""
+    out = []
     if flavour == "pythran":
-        m = re.search(r"#\s*pythran export\s+" + re.escape(q) + r"\s*\((.*)\)", vm.src)
-        if not m:
-            return None
-        s = m.group(1).strip()
-        if not s:
-            return 0
-        depth, n = 0, 1
-        for ch in s:
-            if ch in "([":
-                depth += 1
-            elif ch in ")]":
-                depth -= 1
-            elif ch == "," and depth == 0:
-                n += 1
-        return n
+        for m in re.finditer(r"#\s*pythran\s+export\s+" + re.escape(q) + r"\s*\((.*)\)", vm.src):
+            out.append(_count_top_level(m.group(1)))
+        return out
     fn = vm.func(q)
     for d in fn.decorator_list:
-        if isinstance(d, ast.Call) and src(d.func).endswith(".export") and len(d.args) >= 2 and isinstance(d.args[1], ast.Constant):
-            sig = d.args[1].value
-            inner = sig[sig.index("(") + 1: sig.rindex(")")] if "(" in sig else ""
-            if not inner.strip():
-                return 0
-            depth, n = 0, 1
-            for ch in inner:
-                if ch in "([":
-                    depth += 1
-                elif ch in ")]":
-                    depth -= 1
-                elif ch == "," and depth == 0:
-                    n += 1
-            return n
-    return None
+        if isinstance(d, ast.Call) and src(d.func).endswith(".export") and len(d.args) >= 2:
+            sig = d.args[1]
+            if isinstance(sig, ast.Constant) and isinstance(sig.value, str):
+                t = sig.value
+                out.append(_count_top_level(t[t.index("(") + 1: t.rindex(")")]) if "(" in t and ")" in t else None)
+            elif isinstance(sig, ast.Tuple):
+                out.append(len(sig.elts))
+            elif isinstance(sig, ast.Call) and sig.args is not None:      # ret_type(arg, arg, ...)
+                out.append(len(sig.args))
+            else:
+                out.append(None)
+    return out
 
 
-def spec_check(chk, v, q, vm):
-    """prove a variant body against the same specification formula as the reference -> True/False/None"""
+_KINDS = {"float": "float", "float64": "float", "f8": "float", "double": "float", "float32": "float32", "f4": "float32",
+          "int": "int", "int64": "int", "int32": "int", "i4": "int", "i8": "int", "bool": "bool", "b1": "bool",
+          "complex": "complex", "complex128": "complex", "c16": "complex"}
+
+
+def _type_kind(t: str):
+    """'Final[float[:,:]]' / 'float64[:,:]order(C)' / 'f8[:, :]' -> ('float', 2); None when not of that form"""
+    t = t.strip().strip("'\"")
+    m = re.match(r"Final\[(.*)\]$", t)
+    if m:
+        t = m.group(1).strip()
+    t = re.sub(r"order\(\w\)", "", t).strip()
+    m = re.match(r"([A-Za-z_]\w*)\s*(\[[^\]]*\])?$", t)
+    if not m or m.group(1) not in _KINDS:
+        return None
+    return _KINDS[m.group(1)], (m.group(2) or "").count(":")
+
+
+def _split_top_level(sig: str):
+    out, depth, cur = [], 0, ""
+    for ch in sig:
+        if ch in "([":
+            depth += 1
+        elif ch in ")]":
+            depth -= 1
+        if ch == "," and depth == 0:
+            out.append(cur)
+            cur = ""
+        else:
+            cur += ch
+    if cur.strip():
+        out.append(cur)
+    return out
+
+
+def export_types(vm, q, flavour):
+    """per export declaration the list of (kind, rank) of its arguments (None where not recognised)"""
+    sigs = []
+    if flavour == "pythran":
+        for m in re.finditer(r"#\s*pythran\s+export\s+" + re.escape(q) + r"\s*\((.*)\)", vm.src):
+            sigs.append([_type_kind(x) for x in _split_top_level(m.group(1))])
+        return sigs
+    for d in vm.func(q).decorator_list:
+        if isinstance(d, ast.Call) and src(d.func).endswith(".export") and len(d.args) >= 2:
+            sg = d.args[1]
+            if isinstance(sg, ast.Constant) and isinstance(sg.value, str) and "(" in sg.value and ")" in sg.value:
+                t = sg.value
+                sigs.append([_type_kind(x) for x in _split_top_level(t[t.index("(") + 1: t.rindex(")")])])
+            elif isinstance(sg, ast.Tuple):
+                sigs.append([_type_kind(src(x)) for x in sg.elts])
+    return sigs
+
+
+def _drop(chk, before):
+    """forget the obligations recorded since `before` (an attempt that decided nothing)"""
+    for o in chk.obs[before:]:
+        chk._seen.discard((o.key, o.status, o.line))
+    gone = chk.obs[before:]
+    del chk.obs[before:]
+    return gone
+
+
+class _Shim:
+    """a module in which one function is replaced (its canonical form): what the engines see of a module is `func`"""
+
+    def __init__(self, mod, fns):
+        self._mod, self._fns = mod, fns
+
+    def func(self, q):
+        return self._fns[q] if q in self._fns else self._mod.func(q)
+
+    def functions(self):
+        d = dict(self._mod.functions())
+        d.update(self._fns)
+        return d
+
+    def __getattr__(self, n):
+        return getattr(self._mod, n)
+
+
+def spec_check(chk, v, q, vm, override=None):
+    """prove a body against the specification formula of the function
+    -> (True / False, "") with the obligations recorded, or (None, reason) with nothing recorded.
+    override: a FunctionDef analysed in place of vm.func(q)"""
     from . import C07, C12
     from .. import symx
     before = len(chk.obs)
@@ -194,6 +1451,10 @@ def spec_check(chk, v, q, vm):
         for name, f in chk.mod(k).functions().items():
             if "." not in name:
                 symx.ANNOTATION_SOURCE[name] = f
+    real_mod = chk.mod
+    if override is not None:
+        vm = _Shim(vm, {q: override})
+        chk.mod = lambda rel, _vm=vm: _vm if rel == v else real_mod(rel)
     try:
         if "eval_spline" in q and q.split("_")[-1] in ("scalar", "vector", "cross") and not re.search(r"_\d\d$", q):
             _with_module_funcs(C07.check_evaluator, chk, v, q, vm, rule="V4-body-equivalence")
@@ -202,23 +1463,70 @@ def spec_check(chk, v, q, vm):
         elif q == "general_poloidal_advection_step_expl":
             C12.check_explicit(chk, vm, modname=v, qname=q)
         elif q == "f_eq":
-            return feq_equal(chk, v, vm)
+            r, why = feq_equal(chk, v, vm)
+            return r, why
         else:
-            return None
+            return None, "there is no specification formula for this function"
     except (Undecided, AnalysisError) as e:
-        chk.ob("V4-body-equivalence", vm.func(q), f"{v}:{q}", None, f"specification check not applicable: {e}", file=v, func=q)
-        return None
-    symx.ANNOTATION_SOURCE.clear()
+        _drop(chk, before)
+        return None, f"the specification check is not applicable ({e})"
+    except Exception as e:        # an engine that cannot digest the rewritten body decides nothing
+        _drop(chk, before)
+        return None, f"the specification check failed on this body ({type(e).__name__}: {e})"
+    finally:
+        symx.ANNOTATION_SOURCE.clear()
+        if override is not None:
+            del chk.mod          # back to the class method
     new = chk.obs[before:]
     for o in new:
         o.file = v
     if not new:
-        return None
+        return None, "the specification check produced no obligation"
     if any(o.status == "VIOLATED" for o in new):
-        return False
-    if any(o.status == "UNDECIDED" for o in new):
-        return None
-    return True
+        return False, ""
+    und = [o for o in new if o.status == "UNDECIDED"]
+    if und:
+        _drop(chk, before)
+        return None, f"the specification check could not extract the formula ({und[0].msg[:160]})"
+    return True, ""
+
+
+def reference_spec(chk, ref, q, pure):
+    """the reference body against the same formula (once per function): a copy that satisfies the formula equals the reference
+    only if the reference satisfies it too.  The body as written is tried first, then its canonical form."""
+    cache = chk.__dict__.setdefault("_c19_refspec", {})
+    if (ref, q) in cache:
+        return cache[(ref, q)]
+    rm = chk.mod(ref)
+    before = len(chk.obs)
+    r, why = spec_check(chk, ref, q, rm)
+    if r is not True:
+        first = _drop(chk, before) if r is False else []
+        try:
+            fn = rm.func(q)
+            c = canon_fn(fn, pure, rm.tree)
+            c.args = fn.args                    # the engines read the annotations
+            c._qual = q
+            ast.fix_missing_locations(c)
+            for n in ast.walk(c):
+                for ch in ast.iter_child_nodes(n):
+                    ch._parent = n
+            c._parent = getattr(fn, "_parent", None)
+            r2, why2 = spec_check(chk, ref, q, rm, override=c)
+        except Exception as e:
+            r2, why2 = None, f"canonical form not available ({type(e).__name__}: {e})"
+        if r2 is True:
+            r, why = True, ""
+        else:
+            if r2 is False:
+                _drop(chk, before)
+            if r is False:
+                chk.obs.extend(first)          # the diagnosis on the body as written
+            elif r2 is False:
+                r, why = None, "the reference satisfies the formula neither as written nor in canonical form, but only the " \
+                    "canonical form gives a definite difference: " + why
+    cache[(ref, q)] = (r, why)
+    return r, why
 
 
 def _with_module_funcs(fn, chk, v, q, vm, **kw):
@@ -237,7 +1545,7 @@ def _with_module_funcs(fn, chk, v, q, vm, **kw):
 
 
 def feq_equal(chk, v, vm):
-    """f_eq of the variant equals the reference as a formula (n0, Ti uninterpreted)"""
+    """f_eq of the variant equals the reference as a formula (n0, Ti uninterpreted) -> (True/False, "") or (None, reason)"""
     import sympy as sp
     from ..npsym import NpSym
     rm = chk.mod(U.INITF)
@@ -247,6 +1555,8 @@ def feq_equal(chk, v, vm):
         ps = [a.arg for a in fn.args.args]
         if actuals is None:
             actuals = [sp.Symbol(f"a{k}", positive=True) for k in range(len(ps))]
+        if len(actuals) != len(ps):
+            raise Undecided(f"`{name}` called with {len(actuals)} arguments")
         env = dict(zip(ps, actuals))
         env["pi"] = sp.Symbol("pi", positive=True)
         env["real"] = lambda x: x
@@ -254,17 +1564,20 @@ def feq_equal(chk, v, vm):
             if "." not in other and other != name and depth < 3:
                 env[other] = (lambda *xs, other=other: formula(mod, other, list(xs), depth + 1))
         n = NpSym(env=env)
-        ret = [s for s in ast.walk(fn) if isinstance(s, ast.Return)][0]
-        return n.ev(ret.value)
+        body = [s_ for s_ in fn.body if not isinstance(s_, (ast.Import, ast.ImportFrom, ast.Pass)) and not _is_docstring(s_)]
+        if not body or not isinstance(body[-1], ast.Return) or body[-1].value is None or \
+                any(not (isinstance(s_, ast.Assign) and len(s_.targets) == 1 and isinstance(s_.targets[0], ast.Name)) for s_ in body[:-1]):
+            raise Undecided(f"`{name}` is not a sequence of scalar assignments followed by a return")
+        n.run(body[:-1])       # scalar locals by forward substitution
+        return n.ev(body[-1].value)
     try:
         a, b = formula(rm), formula(vm)
         ok = sp.simplify(a - b) == 0
     except (Undecided, Exception) as e:
-        chk.ob("V4-body-equivalence", vm.func("f_eq"), f"{v}:f_eq", None, f"formula not extractable: {e}", file=v, func="f_eq")
-        return None
+        return None, f"the formula of f_eq is not extractable ({e})"
     chk.ob("V4-body-equivalence", vm.func("f_eq"), f"{v}:f_eq", ok, "same formula as the reference (n0, Ti uninterpreted)" if ok else
            f"formula {b} differs from the reference {a}", file=v, func="f_eq")
-    return ok
+    return ok, ""
 
 
 def call_sites(chk):
@@ -277,10 +1590,18 @@ def call_sites(chk):
     n = 0
     for rel in (U.SPLINES, U.INTERP, U.ADV, U.ADVK, U.POISSON, U.INITIALISER, U.CU, U.NU, U.INITF, U.PTOOLS):
         mod = chk.mod(rel)
+        # names under which a kernel module as a whole is imported (`from ..initialisation import initialiser_funcs as init`)
+        kmods = {k.split("/")[-1][:-3] for k in U.KERNELS}
+        aliases = set()
+        for st in mod.tree.body:
+            if isinstance(st, ast.ImportFrom):
+                aliases |= {a.asname or a.name for a in st.names if a.name in kmods}
+            elif isinstance(st, ast.Import):
+                aliases |= {a.asname for a in st.names if a.asname and a.name.split(".")[-1] in kmods}
         for c in ast.walk(mod.tree):
             if isinstance(c, ast.Call):
                 name = c.func.id if isinstance(c.func, ast.Name) else (c.func.attr if isinstance(c.func, ast.Attribute) and
-                                                                     isinstance(c.func.value, ast.Name) and c.func.value.id == "init" else None)
+                                                                     isinstance(c.func.value, ast.Name) and c.func.value.id in aliases else None)
                 if name in kernels and not _shadowed(c, name) and _imported(mod, name, c):
                     k, fn = kernels[name]
                     formals = [a.arg for a in fn.args.args]
@@ -329,54 +1650,355 @@ def _imported(mod, name, call):
     return False
 
 
+# ---------------------------------------------------------------------------------------------------------
+# K1: indices that interpreted Python would wrap around
+# ---------------------------------------------------------------------------------------------------------
+
+def _additive_terms(e, sign=1, out=None):
+    out = [] if out is None else out
+    if isinstance(e, ast.BinOp) and isinstance(e.op, (ast.Add, ast.Sub)):
+        _additive_terms(e.left, sign, out)
+        _additive_terms(e.right, sign if isinstance(e.op, ast.Add) else -sign, out)
+    elif isinstance(e, ast.UnaryOp) and isinstance(e.op, (ast.USub, ast.UAdd)):
+        _additive_terms(e.operand, -sign if isinstance(e.op, ast.USub) else sign, out)
+    else:
+        out.append((sign, e))
+    return out
+
+
+def _from_end(e):
+    """-k, -1 - j: an index that is negative by construction (Python counts from the end, compiled code does not)"""
+    terms = _additive_terms(e)
+    return all(sg < 0 for sg, _ in terms) and any(not isinstance(t, ast.Constant) for _, t in terms)
+
+
+def _is_mod(e):
+    return isinstance(e, ast.BinOp) and isinstance(e.op, ast.Mod)
+
+
+def _names_outside_mod(e):
+    if _is_mod(e):
+        return set()
+    if isinstance(e, ast.Name):
+        return {e.id}
+    out = set()
+    for c in ast.iter_child_nodes(e):
+        out |= _names_outside_mod(c)
+    return out
+
+
+def _int_arrays(fn, ref_fn):
+    """parameters declared as integer arrays (own annotation, or the annotation of the reference kernel of the same name)"""
+    out = set()
+    own = {a.arg for a in fn.args.args}
+    for f in (fn, ref_fn):
+        if f is None:
+            continue
+        for a in f.args.args:
+            if a.annotation is not None and a.arg in own and re.search(r"\bint\d*\s*\[", src(a.annotation)):
+                out.add(a.arg)
+    return out
+
+
+def _data_ints(fn, int_arrays):
+    """locals that hold an element of an integer array argument: data, of either sign and any size"""
+    T = set()
+    for _ in range(4):
+        for st in ast.walk(fn):
+            if isinstance(st, ast.For):
+                it, tg = st.iter, st.target
+                if isinstance(it, ast.Call) and src(it.func) == "enumerate" and it.args and isinstance(tg, ast.Tuple) and len(tg.elts) == 2:
+                    it, tg = it.args[0], tg.elts[1]
+                if isinstance(it, ast.Name) and it.id in int_arrays and isinstance(tg, ast.Name):
+                    T.add(tg.id)
+            elif isinstance(st, ast.Assign) and len(st.targets) == 1 and isinstance(st.targets[0], ast.Name):
+                v = st.value
+                if isinstance(v, ast.Subscript) and isinstance(v.value, ast.Name) and v.value.id in int_arrays:
+                    T.add(st.targets[0].id)
+                elif not _is_mod(v) and (_names_outside_mod(v) & T) and not any(isinstance(c, ast.Call) for c in ast.walk(v)):
+                    T.add(st.targets[0].id)
+    return T
+
+
+def _test_side(test, x):
+    """which end of the range a condition on the index x tests: 'neg' (x < 0), 'high' (x >= n), None"""
+    if not (isinstance(test, ast.Compare) and len(test.ops) == 1):
+        return None, None
+    l, op, r = test.left, test.ops[0], test.comparators[0]
+    if isinstance(r, ast.Name) and r.id == x and not (isinstance(l, ast.Name) and l.id == x):
+        l, r = r, l
+        op = {ast.Lt: ast.Gt, ast.LtE: ast.GtE, ast.Gt: ast.Lt, ast.GtE: ast.LtE}.get(type(op), type(op))()
+    if not (isinstance(l, ast.Name) and l.id == x):
+        return None, None
+    if isinstance(op, (ast.Lt, ast.LtE)) and src(r) in ("0", "-1"):
+        return "neg", r
+    if isinstance(op, (ast.Gt, ast.GtE)):
+        return "high", r
+    return None, None
+
+
+def _correction(st, x):
+    """a statement that re-binds the index x from itself -> ('mod'|'low-if'|'low-while'|'up'|'unknown', text)"""
+    if isinstance(st, ast.Assign) and isinstance(st.value, ast.IfExp):
+        # x = x - n if x >= n else x   /   x = x if x < n else x - n
+        e = st.value
+        arms = [(e.body, e.test, True), (e.orelse, e.test, False)]
+        keep = [a for a, _, _ in arms if isinstance(a, ast.Name) and a.id == x]
+        move = [(a, pol) for a, _, pol in arms if isinstance(a, ast.BinOp) and isinstance(a.left, ast.Name) and a.left.id == x
+                and isinstance(a.op, (ast.Add, ast.Sub)) and x not in {n.id for n in ast.walk(a.right) if isinstance(n, ast.Name)}]
+        if len(keep) == 1 and len(move) == 1:
+            a, pol = move[0]
+            side, _ = _test_side(e.test, x)
+            if not pol:       # the moving arm is taken when the test is false
+                t = e.test
+                if isinstance(t, ast.Compare) and len(t.ops) == 1 and isinstance(t.left, ast.Name) and t.left.id == x:
+                    side = {ast.Lt: "high", ast.LtE: "high"}.get(type(t.ops[0])) if src(t.comparators[0]) not in ("0", "-1") else \
+                        {ast.GtE: "neg", ast.Gt: "neg"}.get(type(t.ops[0]))
+                else:
+                    side = None
+            if isinstance(a.op, ast.Add) and side == "neg":
+                return "low-if", src(st)
+            if isinstance(a.op, ast.Sub) and side == "high":
+                return "up", src(st)
+        return "unknown", src(st)
+    if isinstance(st, ast.AugAssign):
+        op, amount = st.op, st.value
+    elif isinstance(st, ast.Assign) and isinstance(st.value, ast.BinOp):
+        v = st.value
+        op = v.op
+        if isinstance(v.left, ast.Name) and v.left.id == x:
+            amount = v.right
+        elif isinstance(v.right, ast.Name) and v.right.id == x and isinstance(op, ast.Add):
+            amount = v.left
+        else:
+            return "unknown", src(st)
+    else:
+        return "unknown", src(st)
+    if x in {n.id for n in ast.walk(amount) if isinstance(n, ast.Name)}:
+        return "unknown", src(st)
+    if isinstance(op, ast.Mod):
+        return "mod", src(st)
+    p = parent(st)
+    if not isinstance(p, (ast.If, ast.While)) or st not in p.body:
+        return "unknown", src(st)
+    side, _ = _test_side(p.test, x)
+    head = ("while " if isinstance(p, ast.While) else "if ") + src(p.test) + ": " + src(st)
+    if isinstance(op, ast.Add) and side == "neg":
+        return ("low-while" if isinstance(p, ast.While) else "low-if"), head
+    if isinstance(op, ast.Sub) and side == "high":
+        return "up", head
+    return "unknown", head
+
+
+def periodic_indices(chk, rel, q, fn, ref_fn):
+    """-> number of violations recorded"""
+    R = "K1-no-negative-index-wrap"
+    nviol = 0
+    int_arrays = _int_arrays(fn, ref_fn)
+    data = _data_ints(fn, int_arrays)
+    stmts = sorted((st for st in ast.walk(fn) if isinstance(st, ast.stmt) and st is not fn), key=lambda s_: (s_.lineno, s_.col_offset))
+    pos = {id(st): k for k, st in enumerate(stmts)}
+    stores: dict[str, list] = {}
+    for st in stmts:
+        if isinstance(st, (ast.Assign, ast.AugAssign, ast.AnnAssign)):
+            for t in (st.targets if isinstance(st, ast.Assign) else [st.target]):
+                if isinstance(t, ast.Name):
+                    stores.setdefault(t.id, []).append(st)
+                elif isinstance(t, ast.Tuple):
+                    for e in t.elts:
+                        if isinstance(e, ast.Name):
+                            stores.setdefault(e.id, []).append(None)
+        elif isinstance(st, ast.For):
+            for e in ast.walk(st.target):
+                if isinstance(e, ast.Name):
+                    stores.setdefault(e.id, []).append(None)
+
+    # loop counters with a literal first value: for j in range(n) / range(a, ...) / enumerate(X)
+    first_value = {}
+    for st in stmts:
+        if isinstance(st, ast.For) and isinstance(st.iter, ast.Call) and isinstance(st.iter.func, ast.Name):
+            nm, start = None, None
+            if st.iter.func.id == "range" and isinstance(st.target, ast.Name) and len(st.iter.args) in (1, 2) or \
+                    (st.iter.func.id == "range" and isinstance(st.target, ast.Name) and len(st.iter.args) == 3
+                     and isinstance(st.iter.args[2], ast.Constant) and isinstance(st.iter.args[2].value, int) and st.iter.args[2].value > 0):
+                nm = st.target.id
+                a0 = st.iter.args[0] if len(st.iter.args) >= 2 else ast.Constant(0)
+                start = a0.value if isinstance(a0, ast.Constant) and isinstance(a0.value, int) else None
+            elif st.iter.func.id == "enumerate" and isinstance(st.target, ast.Tuple) and st.target.elts and isinstance(st.target.elts[0], ast.Name) \
+                    and len(st.iter.args) == 1:
+                nm, start = st.target.elts[0].id, 0
+            if nm is not None:
+                first_value[nm] = start if nm not in first_value or first_value[nm] == start else None
+
+    def first_iteration_negative(e):
+        """`j - c` with j a loop counter whose first value is smaller than the literal c"""
+        terms = _additive_terms(e)
+        pos_ = [t for sg, t in terms if sg > 0 and not isinstance(t, ast.Constant)]
+        neg_ = [t for sg, t in terms if sg < 0 and not isinstance(t, ast.Constant)]
+        if len(pos_) != 1 or neg_ or not isinstance(pos_[0], ast.Name) or first_value.get(pos_[0].id) is None:
+            return None
+        if len(stores.get(pos_[0].id, [])) != sum(1 for st in stmts if isinstance(st, ast.For) and pos_[0].id in {n.id for n in ast.walk(st.target) if isinstance(n, ast.Name)}):
+            return None       # the counter is also assigned elsewhere
+        const = sum(sg * t.value for sg, t in terms if isinstance(t, ast.Constant) and isinstance(t.value, int) and not isinstance(t.value, bool))
+        if any(isinstance(t, ast.Constant) and not isinstance(t.value, int) for _, t in terms):
+            return None
+        v0 = first_value[pos_[0].id] + const
+        return (pos_[0].id, first_value[pos_[0].id], v0) if v0 < 0 else None
+
+    def resolve(e, depth=0):
+        """single-assignment scalar locals written back (two levels): `d = i - s; idx = d` is `idx = i - s`"""
+        if depth > 2:
+            return e
+
+        class Sub(ast.NodeTransformer):
+            def visit_Name(self, n):
+                ds = stores.get(n.id, [])
+                if isinstance(n.ctx, ast.Load) and len(ds) == 1 and isinstance(ds[0], ast.Assign) and len(ds[0].targets) == 1 \
+                        and isinstance(ds[0].value, (ast.BinOp, ast.UnaryOp, ast.Name)) and n.id not in data:
+                    return resolve(ast.parse(src(ds[0].value), mode="eval").body, depth + 1)
+                return n
+        return Sub().visit(ast.parse(src(e), mode="eval").body)
+
+    def may_be_negative(e):
+        """recognisable reasons why an index value can be negative: a variable is subtracted, or it contains array data"""
+        if _is_mod(e):
+            return None
+        terms = _additive_terms(e)
+        if len(terms) == 1 and not (terms[0][0] < 0) and not (_names_outside_mod(e) & data):
+            return None
+        if all(sg < 0 for sg, _ in terms) and any(not isinstance(t, ast.Constant) for _, t in terms):
+            return f"`{src(e)}` counts from the end of the array (negative for every positive `{src([t for _, t in terms if not isinstance(t, ast.Constant)][0])}`)"
+        for sg, t in terms:
+            if sg < 0 and _is_mod(t):
+                return f"`{src(t)}` can exceed the rest of `{src(e)}`"
+        for sg, t in terms:
+            if _names_outside_mod(t) & data:
+                nm = sorted(_names_outside_mod(t) & data)[0]
+                return f"`{nm}` is an element of the integer array argument `{sorted(int_arrays)[0] if int_arrays else '?'}` (any sign, any size)"
+        for sg, t in terms:
+            if sg < 0 and not isinstance(t, ast.Constant):
+                return f"the variable `{src(t)}` is subtracted"
+        return None
+
+    seen = set()
+    for sub in ast.walk(fn):
+        if not isinstance(sub, ast.Subscript) or isinstance(sub.value, ast.Attribute) and sub.value.attr == "shape":
+            continue
+        items = sub.slice.elts if isinstance(sub.slice, ast.Tuple) else [sub.slice]
+        for it in items:
+            if isinstance(it, ast.Slice) or isinstance(it, ast.Constant):
+                continue
+            if isinstance(it, ast.Name):
+                x = it.id
+                if x in seen:
+                    continue
+                seen.add(x)
+                defs = [d for d in stores.get(x, []) if d is not None]
+                if len(defs) != len(stores.get(x, [])):
+                    continue          # loop counters and unpacked values: not an index computed here
+                base = [d for d in defs if isinstance(d, ast.Assign) and x not in {n.id for n in ast.walk(d.value) if isinstance(n, ast.Name)}]
+                corr = [d for d in defs if d not in base]
+                for k, d in enumerate(sorted(base, key=lambda d_: pos[id(d_)])):
+                    nxt = min([pos[id(o)] for o in base if pos[id(o)] > pos[id(d)]], default=10 ** 9)
+                    mine = [_correction(c, x) for c in corr if pos[id(d)] < pos[id(c)] < nxt]
+                    val = resolve(d.value)
+                    fi = first_iteration_negative(val)
+                    if fi is not None and not mine:
+                        nviol += 1
+                        chk.ob(R, d, f"index {x} = {src(d.value)}", False,
+                               f"the loop counter `{fi[0]}` starts at {fi[1]}, so `{x} = {src(d.value)}` is {fi[2]} in the first iteration and "
+                               f"nothing brings it back into range: interpreted Python indexes `{src(sub)[:40]}` from the end, the compiled "
+                               "(pyccel/pythran) kernel does not wrap a negative index and accesses memory before the array", file=rel, func=q)
+                        continue
+                    why = may_be_negative(val)
+                    kinds = {k_ for k_, _ in mine}
+                    shown = f"index {x} = {src(d.value)}" + "".join("; " + t for _, t in mine[:2])
+                    if why is None:
+                        if _is_mod(val) and any(sg < 0 for sg, _ in _additive_terms(val.left)):
+                            chk.ob(R, d, f"index {x} = {src(d.value)}", True, "the difference is reduced with `%` before it is used as an "
+                                   "index: never negative, in interpreted and in compiled code alike", file=rel, func=q)
+                        continue
+                    wrapped_mod = any(sg < 0 and _is_mod(t) for sg, t in _additive_terms(val))
+                    if "mod" in kinds or "low-while" in kinds:
+                        chk.ob(R, d, shown, True, "the index is brought into range by `%` / by a loop that adds the period as long as it is "
+                               "negative", file=rel, func=q)
+                    elif "unknown" in kinds:
+                        chk.ob(R, d, shown, None, f"the index can be negative ({why}) and is re-bound by `{[t for k_, t in mine if k_ == 'unknown'][0][:80]}`, "
+                               "which is none of the recognised range corrections: cannot decide whether a negative value reaches the subscript",
+                               file=rel, func=q)
+                    elif wrapped_mod:
+                        nviol += 1
+                        chk.ob(R, sub, f"{src(sub)[:60]} with index {src(d.value)}", False,
+                               f"the index `{src(d.value)}` can be negative ({why}): interpreted Python wraps it around, the compiled "
+                               "(pyccel/pythran) kernel reads/writes out of bounds", file=rel, func=q)
+                    elif "low-if" in kinds:
+                        variable = [t for sg, t in _additive_terms(val) if sg < 0 and not isinstance(t, ast.Constant)] or \
+                            [t for sg, t in _additive_terms(val) if _names_outside_mod(t) & data]
+                        if not variable:
+                            continue      # a constant offset: one period is enough
+                        b0 = [t for k_, t in mine if k_ == "low-if"][0]
+                        nviol += 1
+                        chk.ob(R, d, f"index {x} = {src(d.value)}; {b0}", False,
+                               f"`{x} = {src(d.value)}` is brought back into range by adding the period once: when the shift exceeds one period "
+                               f"`{x}` stays negative - interpreted Python then indexes from the end (silently, and here even correctly), the "
+                               "compiled kernel reads/writes before the start of the array", file=rel, func=q)
+                    elif "up" in kinds:
+                        up = [t for k_, t in mine if k_ == "up"][0]
+                        nviol += 1
+                        chk.ob(R, d, f"index {x} = {src(d.value)}; {up}", False,
+                               f"`{x} = {src(d.value)}` is corrected only at the upper end (`{up}`); it can be negative ({why}) and "
+                               f"nothing adds the period back: interpreted Python silently indexes `{src(sub)[:40]}` from the end (the "
+                               "plane the modulo would have given), the compiled (pyccel/pythran) kernel does not wrap a negative index and "
+                               "reads/writes before the start of the array, leaving the intended element untouched", file=rel, func=q)
+                    elif (_names_outside_mod(val) & data) or _from_end(val):
+                        nviol += 1
+                        chk.ob(R, d, f"index {x} = {src(d.value)} (never reduced)", False,
+                               f"`{x} = {src(d.value)}` is used as an index as it is; {why}, so it can be negative: interpreted Python "
+                               "wraps it around, the compiled kernel reads/writes out of bounds", file=rel, func=q)
+                    # otherwise: a structural offset such as span - degree + j, kept non-negative by the callers' contract
+            else:
+                key = src(it)
+                if key in seen:
+                    continue
+                seen.add(key)
+                val = resolve(it)
+                fi = first_iteration_negative(val)
+                if fi is not None:
+                    nviol += 1
+                    chk.ob(R, sub, f"{src(sub)[:60]} with index {src(it)}", False,
+                           f"the loop counter `{fi[0]}` starts at {fi[1]}, so `{src(it)}` is {fi[2]} in the first iteration: interpreted Python "
+                           f"reads/writes `{src(sub.value)}` from the end (the periodic neighbour), the compiled (pyccel/pythran) kernel does "
+                           "not wrap a negative index and accesses memory before the array", file=rel, func=q)
+                    continue
+                why = may_be_negative(val)
+                if why is None:
+                    if _is_mod(val) and any(sg < 0 for sg, _ in _additive_terms(val.left)):
+                        chk.ob(R, sub, f"{src(sub)[:60]}", True, "the difference is reduced with `%` inside the subscript", file=rel, func=q)
+                    continue
+                if any(sg < 0 and _is_mod(t) for sg, t in _additive_terms(val)) or (_names_outside_mod(val) & data) or _from_end(val):
+                    nviol += 1
+                    chk.ob(R, sub, f"{src(sub)[:60]} with index {src(it)}", False,
+                           f"the index `{src(it)}` can be negative ({why}): interpreted Python wraps it around, the compiled "
+                           "(pyccel/pythran) kernel reads/writes out of bounds", file=rel, func=q)
+    return nviol
+
+
 def index_wrap(chk):
-    """K1: compiled code does not wrap negative indices: no subscript of the form  X - (Y % n)"""
+    """K1: compiled code does not wrap negative indices; K2: loop counters after their loop"""
     files = list(U.KERNELS) + [v for vs in U.VARIANTS.values() for v in vs]
     n = 0
     n2 = [0]
+    reference = {}
+    for k in U.KERNELS:
+        for q, f in chk.mod(k).functions().items():
+            reference.setdefault(q, f)
     for rel in files:
         mod = chk.mod(rel)
         for q, fn in mod.functions().items():
-            env = {}
-            for st in ast.walk(fn):
-                if isinstance(st, ast.Assign) and isinstance(st.targets[0], ast.Name):
-                    env.setdefault(st.targets[0].id, []).append(st.value)
-            for s_ in ast.walk(fn):
-                if isinstance(s_, ast.Subscript) and not isinstance(s_.slice, ast.Slice):
-                    items = s_.slice.elts if isinstance(s_.slice, ast.Tuple) else [s_.slice]
-                    for it in items:
-                        exprs = [it] + (env.get(it.id, []) if isinstance(it, ast.Name) else [])
-                        for e in exprs:
-                            if isinstance(e, ast.BinOp) and isinstance(e.op, ast.Sub) and isinstance(e.right, ast.BinOp) \
-                                    and isinstance(e.right.op, ast.Mod):
-                                n += 1
-                                chk.ob("K1-no-negative-index-wrap", s_, f"{src(s_)[:60]} with index {src(e)}", False,
-                                       f"the index `{src(e)}` is negative whenever `{src(e.right)}` exceeds `{src(e.left)}`: interpreted Python "
-                                       "wraps it around, the compiled (pyccel/pythran) kernel reads/writes out of bounds", file=rel, func=q)
-            # single-step periodic correction of an index computed by subtraction: still negative when the shift exceeds one period
-            idx_names = set()
-            for s_ in ast.walk(fn):
-                if isinstance(s_, ast.Subscript):
-                    for it in (s_.slice.elts if isinstance(s_.slice, ast.Tuple) else [s_.slice]):
-                        if isinstance(it, ast.Name):
-                            idx_names.add(it.id)
-            for iff in ast.walk(fn):
-                if isinstance(iff, ast.If) and isinstance(iff.test, ast.Compare) and len(iff.test.ops) == 1 \
-                        and isinstance(iff.test.ops[0], ast.Lt) and isinstance(iff.test.left, ast.Name) \
-                        and src(iff.test.comparators[0]) == "0" and iff.test.left.id in idx_names and len(iff.body) == 1:
-                    x = iff.test.left.id
-                    b0 = iff.body[0]
-                    add = (isinstance(b0, ast.AugAssign) and isinstance(b0.op, ast.Add) and src(b0.target) == x) or \
-                        (isinstance(b0, ast.Assign) and src(b0.targets[0]) == x and isinstance(b0.value, ast.BinOp)
-                         and isinstance(b0.value.op, ast.Add) and x in (src(b0.value.left), src(b0.value.right)))
-                    defs = [e for e in env.get(x, []) if isinstance(e, ast.BinOp) and isinstance(e.op, ast.Sub)
-                            and not any(isinstance(m, ast.Mod) for m in ast.walk(e))]
-                    if add and defs:
-                        n += 1
-                        chk.ob("K1-no-negative-index-wrap", iff, f"index {x} = {src(defs[0])}; if {x} < 0: {src(b0)}", False,
-                               f"`{x} = {src(defs[0])}` is brought back into range by adding the period once: when the shift exceeds one period "
-                               f"`{x}` stays negative - interpreted Python then indexes from the end (silently, and here even correctly), the "
-                               "compiled kernel reads/writes before the start of the array", file=rel, func=q)
+            try:
+                n += periodic_indices(chk, rel, q, fn, reference.get(q))
+            except Exception as e:          # a defect of the index analysis decides nothing about the kernel
+                chk.ob("K1-no-negative-index-wrap", fn, f"{rel}:{q}", None, f"index analysis failed ({type(e).__name__}: {e})", file=rel, func=q)
             # K2: value of a loop variable after its loop: Python keeps the last value taken, Fortran/C the first value not taken
             for lp in ast.walk(fn):
                 if not isinstance(lp, ast.For) or any(isinstance(b_, ast.Break) for b_ in ast.walk(lp)):
@@ -412,7 +2034,7 @@ def index_wrap(chk):
            "for loop is read after its loop" if n2[0] == 0 else f"{n2[0]} reads of a loop counter after its loop", file="pygyro",
            func="<kernels>", nontrivial=False)
     chk.ob("K1-no-negative-index-wrap", None, "kernels and variants", n == 0, f"{len(files)} kernel files scanned: no index of the form "
-           "X - (Y % n) and no single-step wrap of a subtracted index" if n == 0 else f"{n} indices rely on negative wrap-around", file="pygyro", func="<kernels>", nontrivial=False)
+           "X - (Y % n), no one-sided or single-step wrap of a subtracted index, no unreduced index built from array data" if n == 0 else f"{n} indices rely on negative wrap-around", file="pygyro", func="<kernels>", nontrivial=False)
 
 
 def build_witness(chk, tier):
@@ -439,8 +2061,13 @@ def build_witness(chk, tier):
         results.append(one(U.ADVK))
         for rel, rc, out in results:
             errs = [l for l in out.splitlines() if "error" in l.lower() or "ERROR" in l]
-            chk.ob("B1-build-front-end", None, f"pyccel -t {rel}", rc == 0, "translated (syntax, semantic/type analysis and code generation) "
-                   "without error" if rc == 0 else "pyccel rejects the kernel: " + " | ".join(errs[-3:] or out.splitlines()[-3:]),
+            # a diagnosis of the compiler about the source (|error [stage]: file [line,col]| ...) is a verdict; anything else that
+            # makes the process fail (crash of the tool, environment) decides nothing about the kernel
+            diagnosed = any(re.search(r"\|\s*(error|fatal)\b|ERROR at .* stage", l) for l in out.splitlines())
+            okb = True if rc == 0 else (False if diagnosed else None)
+            chk.ob("B1-build-front-end", None, f"pyccel -t {rel}", okb, "translated (syntax, semantic/type analysis and code generation) "
+                   "without error" if rc == 0 else ("pyccel rejects the kernel: " if diagnosed else "pyccel failed without a diagnosis of "
+                                                    "the source (tool or environment problem?): ") + " | ".join(errs[-3:] or out.splitlines()[-3:]),
                    file=rel, func="<module>")
         if tier == "thorough":
             for lang in ("fortran", "c"):
@@ -459,29 +2086,53 @@ def build_witness(chk, tier):
 def makefile_targets(chk):
     """the documented build compiles exactly the five kernel modules"""
     found = set()
+    all_targets = []
     for d, names in (("pygyro/splines", ("spline_eval_funcs", "cubic_uniform_spline_eval_funcs")),
                      ("pygyro/initialisation", ("initialiser_funcs",)), ("pygyro/advection", ("accelerated_advection_steps",)),
                      ("pygyro/poisson", ("poisson_tools",))):
         txt = chk.repo.text(d + "/Makefile")
         for nm in names:
+            all_targets.append((d, nm))
             if re.search(r"^" + nm + r"\$\(SO_EXT\):\s*(?:pythran_deps/)?\$\(NAME_PREFIX\)" + nm + r"\.py", txt, re.M):
                 found.add(nm)
     ok = len(found) == 5
-    chk.ob("B1-makefile-targets", None, "kernel targets of pygyro/*/Makefile", ok, "the five kernels are the build targets, each built from "
-           "$(NAME_PREFIX)<kernel>.py" if ok else f"targets found: {sorted(found)}", file="pygyro/Makefile", func="<build>", nontrivial=False)
+    if ok:
+        chk.ob("B1-makefile-targets", None, "kernel targets of pygyro/*/Makefile", True, "the five kernels are the build targets, each built "
+               "from $(NAME_PREFIX)<kernel>.py", file="pygyro/Makefile", func="<build>", nontrivial=False)
+        return
+    # a kernel whose rule is written differently: wrong only when a rule for it exists and names another source
+    wrong = []
+    for d, nm in all_targets:
+        if nm in found:
+            continue
+        txt = chk.repo.text(d + "/Makefile")
+        for m in re.finditer(r"^" + nm + r"\$\(SO_EXT\)\s*:\s*(\S+)", txt, re.M):
+            first = m.group(1)
+            if first.endswith(".py") and not first.endswith(nm + ".py"):
+                wrong.append(f"{d}/Makefile builds {nm}$(SO_EXT) from `{first}`")
+    chk.ob("B1-makefile-targets", None, "kernel targets of pygyro/*/Makefile", False if wrong else None,
+           ("the documented build compiles another source than the kernel the library imports: " + "; ".join(wrong)) if wrong else
+           f"the rules of {sorted(nm for _, nm in all_targets if nm not in found)} are not written in the recognised form "
+           "`<kernel>$(SO_EXT): $(NAME_PREFIX)<kernel>.py` (the build witness B1 still translates the kernels themselves)",
+           file="pygyro/Makefile", func="<build>", nontrivial=False)
 
 
 def run(chk):
     chk.explanation = (
         "Compile-fail witness: pyccel (the repository's own compiler) translates each of the five kernels of the working tree on a "
         "scratch copy (thorough: the documented make for Fortran and C); every library call site of a kernel fits its signature; "
-        "numba/pythran copies define the consumer-imported names with identical parameter lists and matching export arity; "
-        "duplicated pythran copies are AST-identical; each variant body is AST-identical to the reference after normalisation or is "
-        "proved against the same specification formula as the reference (engine F, with helper functions inlined); no kernel index "
-        "relies on negative wrap-around. Equality of compiled and interpreted numerical results is inherently dynamic and is not decided.")
+        "numba/pythran copies define the consumer-imported names, bind the reference's calls the same way, and export signatures of "
+        "matching arity and argument types; duplicated pythran copies agree; each variant body is AST-identical to the reference, "
+        "identical in canonical form (temporaries and hoisted invariants written back, early returns, merged arms, enumerate/range, "
+        "operand order), proved against the same specification formula as the reference (engine F, helper functions inlined), or "
+        "statement-for-statement equal with algebraically equal expressions - a recognisably different expression is a violation, "
+        "anything else undecided; no kernel index relies on negative wrap-around (modulo lost, one-sided or single-step range "
+        "correction, unreduced array data) and no loop counter is read after its loop. Equality of compiled and interpreted "
+        "numerical results is inherently dynamic and is not decided.")
     chk.trusted.append("pyccel 2.0.1 front end (type/semantic analysis) from /venv")
     chk.in_file("pygyro")
     makefile_targets(chk)
+    reference_inputs(chk)
     variant_agreement(chk)
     call_sites(chk)
     index_wrap(chk)
